@@ -2,7 +2,7 @@
 C16 — logins need valid credentials; remote commands need a live session.
 Property theorems only; the model is `Model/Session.lean`.
 -/
-import PrimaiteModel.Lemmas.SessionCases
+import PrimaiteModel.Lemmas.SessionFuel
 import PrimaiteModel.Gen.Session
 namespace Primaite.Session
 
@@ -60,6 +60,19 @@ theorem C16_gen_terminal :
     Gen.Session.remoteCommandAnswersFailureWithoutResponse = true ∧
     Gen.Session.hostDropsFramesForClosedPorts = true := by decide
 
+/-- the direct requests of the session manager (`opUsmLogin`, `opUsmLogout`), `enable_user` (`opEnableUser`: no guard, not a
+request) and the zero-duration branches of `power_off` / `power_on` (`Node.powerOff`, `Node.powerOn`) are what the model says -/
+theorem C16_gen_direct_requests :
+    Gen.Session.usmLoginAnswersBool = true ∧ Gen.Session.usmLogoutHandler = true ∧
+    Gen.Session.logoutPopTolerant = true ∧ Gen.Session.logoutDisconnectsThenPops = true ∧
+    Gen.Session.userManagerRequests = ["add_user", "disable_user", "change_password"] ∧
+    Gen.Session.enableUserShape = true ∧
+    Gen.Session.powerOffZero = ["for: network_interface.disable()", "self._shut_down_actions()",
+      "self.operating_state = NodeOperatingState.OFF",
+      "if self.config.is_resetting: self.config.is_resetting = False; self.power_on()", "return True"] ∧
+    Gen.Session.powerOnZero = ["self.operating_state = NodeOperatingState.ON", "self._start_up_actions()",
+      "for: network_interface.enable()", "return True"] := by decide
+
 /-- the service verbs of the model carry the validators of `Service._init_request_manager` -/
 theorem C16_gen_service_verbs :
     ∀ v ∈ Verb.all, (v.name, s!"self.{v.name}()", (match v.needs with | some q => showSvcState q | none => "-"))
@@ -74,6 +87,63 @@ theorem C16_gen_service_methods :
     Gen.Session.svcStates = [("RUNNING", 1), ("STOPPED", 2), ("PAUSED", 3), ("DISABLED", 4), ("INSTALLING", 5), ("RESTARTING", 6)] := by
   decide
 
+/-! ### terminal commands: what an accepted command is -/
+
+/-- The operation is a terminal command that was *accepted*; what happens next is the execution of the carried command `c`
+as a request of its own (`step … (.req z c)`, so every theorem of this file applies to it again, to any depth) in a state
+that differs from `n` only by the bookkeeping of the acceptance.
+* `remote`: sent by `x` (ON, terminal RUNNING) over an open path on its first connection to `z`, whose id is at that moment
+  a remote session of `z` **and** a connection of `z`'s terminal; the bookkeeping is the session's `last_active_step`.
+* `local`: credentials passing `_login` on `y` (existing enabled account, current password, node ON, both managers RUNNING)
+  while the terminal is RUNNING; the bookkeeping is the local login and its `LocalTerminalConnection`. -/
+inductive Carried (n : Net) (op : Op) : Prop
+  | remote (x z : Nat) (c : Cmd) (a' b' : Node) (cn : Conn) (hop : op = .req x (.remoteCmd z c))
+      (arr : CmdArrives n x z a' b' cn) (hs : b'.hasSession cn.id = true) (hc : b'.hasConn cn.id = true)
+      (heq : (step n op).1 = (step (n.upd z (Node.touch cn.id n.time)) (.req z c)).1)
+  | local (y : Nat) (u p : String) (c : Cmd) (nd : Node) (id : Nat) (hop : op = .req y (.localCmd u p c))
+      (hnd : n.node y = some nd) (hon : nd.isOn = true) (hok : nd.loginOk u p = true) (hrun : nd.term.running = true)
+      (hid : (localLogin n y u p).2 = some id)
+      (heq : (step n op).1 = (step ((localLogin n y u p).1.upd y (Node.addConn ⟨id, none⟩)) (.req y c)).1)
+
+/-- **C16, remote commands.** A remote terminal command (whatever it carries) has exactly three outcomes: nothing happens;
+the target tears the connection down because its id is not a live session (only sessions / connections disappear); or the
+command was accepted on a live session and the carried command is executed. -/
+theorem C16_remote_command_outcomes (n : Net) (x z : Nat) (c : Cmd) :
+    ((step n (.req x (.remoteCmd z c))).1 = n ∧ (step n (.req x (.remoteCmd z c))).2 ≠ .success) ∨
+    (n.Shr (step n (.req x (.remoteCmd z c))).1 ∧ (step n (.req x (.remoteCmd z c))).2 = .failure) ∨
+    Carried n (.req x (.remoteCmd z c)) := by
+  rcases opRemoteCmdK_cases (fun m => execCmd c m z) n x z with ⟨h0, h1⟩ | ⟨a, b, cn, arr, ⟨hs, hc, h0, _⟩ | ⟨_, h0, h1⟩⟩
+  · exact Or.inl ⟨h0, h1⟩
+  · exact Or.inr (Or.inr (Carried.remote x z c a b cn rfl arr hs hc h0))
+  · refine Or.inr (Or.inl ⟨?_, h1⟩)
+    show n.Shr (opRemoteCmdK _ n x z).1
+    rw [h0]; exact shr_disconnect _ _ _ _
+
+theorem localLogin_some_ok {n : Net} {y : Nat} {u p : String} {id : Nat} {nd : Node} (hnd : n.node y = some nd)
+    (hid : (localLogin n y u p).2 = some id) : nd.loginOk u p = true := by
+  rcases localLogin_cases n y u p with h1 | ⟨nd', hnd', hok, _⟩
+  · rw [h1] at hid; cases hid
+  · rw [hnd] at hnd'; cases hnd'; exact hok
+
+/-- **C16, local commands.** A local terminal command has four outcomes: nothing; a refused login; a login whose command is
+not executed because the terminal is not RUNNING; or valid credentials, terminal RUNNING and the carried command executed. -/
+theorem C16_local_command_outcomes (n : Net) (y : Nat) (u p : String) (c : Cmd) :
+    (step n (.req y (.localCmd u p c))).1 = n ∨
+    (step n (.req y (.localCmd u p c))).1 = (localLogin n y u p).1 ∨
+    (∃ id, (step n (.req y (.localCmd u p c))).1 = (localLogin n y u p).1.upd y (Node.addConn ⟨id, none⟩)) ∨
+    Carried n (.req y (.localCmd u p c)) := by
+  rcases opLocalCmdK_cases (fun m => execCmd c m y) n y u p with h0 | ⟨nd, hnd, hon, ⟨_, h0⟩ | ⟨id, hid, ⟨_, h0⟩ | ⟨hr, h0⟩⟩⟩
+  · exact Or.inl h0
+  · exact Or.inr (Or.inl h0)
+  · exact Or.inr (Or.inr (Or.inl ⟨id, h0⟩))
+  · exact Or.inr (Or.inr (Or.inr (Carried.local y u p c nd id rfl hnd hon (localLogin_some_ok hnd hid) hr hid h0)))
+
+theorem not_carried_of_atomic {n : Net} {y : Nat} {c : Cmd} (hc : c.atomic = true) : ¬ Carried n (.req y c) := by
+  intro h
+  cases h with
+  | remote x z c' a' b' cn hop => cases hop; cases hc
+  | «local» y' u p c' nd id hop => cases hop; cases hc
+
 /-! ### commands are executed only on a live session (or with valid local credentials) -/
 
 /-- files of every node untouched -/
@@ -83,103 +153,93 @@ theorem keepFiles_frame : Frame KeepFiles :=
   { refl := fun _ _ => rfl, trans := fun _ _ _ _ h1 h2 => Eq.trans h2 h1,
     shr := fun _ _ _ h => h.files, data := fun _ _ _ h => data_files h }
 
-/-- files, terminal state and power untouched (what a local login leaves alone) -/
-def KeepExec : Nat → Node → Node → Prop := fun _ a b => b.files = a.files ∧ b.term = a.term ∧ b.power = a.power
+theorem keepFiles_edits : Edits KeepFiles := ⟨fun _ _ _ => rfl, fun _ _ _ _ => rfl, fun _ _ _ => rfl, fun _ _ _ _ => rfl⟩
 
-theorem keepExec_pre : Pre KeepExec :=
-  { refl := fun _ _ => ⟨rfl, rfl, rfl⟩,
-    trans := fun _ _ _ _ h1 h2 => ⟨h2.1.trans h1.1, h2.2.1.trans h1.2.1, h2.2.2.trans h1.2.2⟩ }
-
-theorem remoteExec_files (b : Node) (cid t k : Nat) :
-    (b.remoteExec cid t k).files = if b.isOn then b.files ++ [k] else b.files := by
-  unfold Node.remoteExec Node.exec Node.touch Node.isOn
-  dsimp only
-  split <;> rfl
-
-theorem localExec_files (b : Node) (k : Nat) :
-    (b.localExec k).files = if b.term.running && b.isOn then b.files ++ [k] else b.files := by
-  unfold Node.localExec Node.exec
-  cases h1 : b.term.running <;> cases h2 : b.isOn <;> simp [Node.addFile]
+/-- a request without a file command anywhere inside leaves every file alone -/
+theorem exec_keepFiles (c : Cmd) (hf : c.noFile = true) (n : Net) (y : Nat) : Net.Rel KeepFiles n (execCmd c n y).1 :=
+  keepFiles_frame.exec keepFiles_edits (fun n y u => keepFiles_frame.toPre.disableUser n y u (fun _ => rfl)) c
+    (fun _ n y u p => keepFiles_frame.toPre.localLogin n y u p (fun _ _ => rfl)) (fun _ _ _ _ => rfl)
+    (fun h => by rw [hf] at h; cases h) n y
 
 /-- **C16, commands.** Whatever the operation, the files of node `y` change only if
-* the operation is a remote command from some `x` to `y` that arrived (sender ON, its terminal RUNNING, path open), the
-  connection it was sent on (the sender's first connection to `y`) carries an id that is at that moment a remote session of
-  `y` *and* a connection known to `y`'s terminal, and `y` is ON; or
-* it is a local command on `y` whose credentials pass `_login` (existing enabled account, current password, node ON,
-  both managers RUNNING) while the terminal is RUNNING.
-In both cases exactly the commanded file is added. -/
+* the operation is the direct file request to `y` (the agent's own action; `y` is ON, exactly that file is added), or
+* the operation is a terminal command that was accepted (`Carried`: live session and known connection at the target, or valid
+  local credentials) — and then the change is made by the carried command, executed as a request of its own, to which this
+  theorem applies again. -/
 theorem C16_command_runs_only_live (n : Net) (op : Op) (y : Nat) (b a : Node)
     (hb : n.node y = some b) (ha : (step n op).1.node y = some a) (hne : a.files ≠ b.files) :
-    (∃ x k a' c, op = .remoteCmd x y k ∧ CmdArrives n x y a' b c ∧ b.hasSession c.id = true ∧ b.hasConn c.id = true ∧
-        b.isOn = true ∧ a.files = b.files ++ [k]) ∨
-    (∃ u p k, op = .localCmd y u p k ∧ b.isOn = true ∧ b.loginOk u p = true ∧ b.term.running = true ∧
-        a.files = b.files ++ [k]) := by
+    (∃ k, op = .req y (.file k) ∧ b.isOn = true ∧ a.files = b.files ++ [k]) ∨ Carried n op := by
   have contra : Net.Rel KeepFiles n (step n op).1 → False := fun h => by
     obtain ⟨a', ha', hk⟩ := h.node y b hb
     rw [ha] at ha'; cases ha'; exact hne hk
   have F := keepFiles_frame
   cases op with
-  | addUser y' u p adm => exact (contra (F.toPre.addUser n y' u p adm (fun _ _ => rfl))).elim
-  | disableUser y' u => exact (contra (F.toPre.disableUser n y' u (fun _ => rfl))).elim
-  | changePassword y' u o nw => exact (contra (F.changePassword n y' u o nw (fun _ => rfl))).elim
+  | enableUser y' u => exact (contra (F.toPre.enableUser n y' u (fun _ => rfl))).elim
   | localLogin y' u p =>
     refine (contra ?_).elim
     simp only [step]; rw [opLocalLogin_fst]; exact F.toPre.localLogin n y' u p (fun _ _ => rfl)
-  | localLogout y' => exact (contra (F.quiet n _ trivial)).elim
-  | remoteLogin x y' u p => exact (contra (F.toPre.remoteLogin n x y' u p (fun _ _ => rfl) (fun _ _ _ => rfl))).elim
-  | remoteLogoff x y' => exact (contra (F.quiet n _ trivial)).elim
-  | svc y' w v => exact (contra (F.quiet n _ trivial)).elim
-  | shutdown y' => exact (contra (F.quiet n _ trivial)).elim
-  | startup y' => exact (contra (F.quiet n _ trivial)).elim
-  | reset y' => exact (contra (F.quiet n _ trivial)).elim
-  | tick => exact (contra (F.quiet n _ trivial)).elim
-  | remoteCmd x y' k =>
-    simp only [step] at ha contra
-    rcases opRemoteCmd_cases n x y' k with ⟨h0, _⟩ | ⟨a', b', c, arr, ⟨hs, hc, h0⟩ | ⟨_, h0, _⟩⟩
-    · rw [h0] at contra; exact (contra (F.rel_refl n)).elim
-    · rw [h0] at ha
-      by_cases hy : y' = y
-      · subst hy
-        have hbb : b' = b := by have := arr.dst; rw [hb] at this; cases this; rfl
-        subst hbb
-        simp only [node_upd, if_true, hb, Option.map_some, Option.some.injEq] at ha
-        subst ha
-        rw [remoteExec_files] at hne ⊢
-        cases hon : b'.isOn with
-        | false => simp [hon] at hne
-        | true => exact Or.inl ⟨x, k, a', c, rfl, arr, hs, hc, rfl, by simp⟩
-      · simp only [node_upd, hy, if_false] at ha
-        rw [hb] at ha; cases ha; exact (hne rfl).elim
-    · rw [h0] at contra; exact (contra (F.rel_shr F.shr (F.rel_refl n) (shr_disconnect _ _ _ _))).elim
-  | localCmd y' u p k =>
-    simp only [step] at ha contra
-    have hl : Net.Rel KeepExec n (localLogin n y' u p).1 := keepExec_pre.localLogin n y' u p (fun _ _ => ⟨rfl, rfl, rfl⟩)
-    rcases opLocalCmd_cases n y' u p k with h0 | ⟨nd, hnd, hon, ⟨_, h0⟩ | ⟨id, hid, h0⟩⟩
-    · rw [h0] at contra; exact (contra (F.rel_refl n)).elim
-    · rw [h0] at contra; exact (contra (hl.mono (fun _ _ _ h => h.1))).elim
-    · rw [h0] at ha
-      obtain ⟨b1, hb1, hk1, ht1, hp1⟩ := hl.node y b hb
-      by_cases hy : y' = y
-      · subst hy
-        rw [hb] at hnd; cases hnd
-        simp only [node_upd, if_true, hb1, Option.map_some, Option.some.injEq] at ha
-        subst ha
-        have hlogin : b.loginOk u p = true := by
-          rcases localLogin_cases n y' u p with h1 | ⟨nd', hnd', hok, _⟩
-          · rw [h1] at hid; cases hid
-          · rw [hb] at hnd'; cases hnd'; exact hok
-        have hf : ((b1.addConn ⟨id, none⟩).localExec k).files =
-            if b.term.running && b.isOn then b.files ++ [k] else b.files := by
-          rw [localExec_files]
-          simp only [Node.addConn, Node.isOn, ht1, hp1, hk1]
-          rfl
-        rw [hf] at hne ⊢
-        cases hr : b.term.running with
-        | false => simp [hr] at hne
-        | true => exact Or.inr ⟨u, p, k, rfl, hon, hlogin, rfl, by simp [hon]⟩
-      · simp only [node_upd, hy, if_false] at ha
-        rw [hb1] at ha; cases ha; exact (hne hk1).elim
+  | localLogout y' => exact (contra (F.localLogout n y')).elim
+  | tick => exact (contra (F.tick n)).elim
+  | req y' c =>
+    cases c with
+    | file k =>
+      simp only [step, execCmd] at ha contra
+      rcases opFile_cases n y' k with h0 | ⟨nd, hnd, hon, h0⟩
+      · rw [h0] at contra; exact (contra (F.rel_refl n)).elim
+      · rw [h0] at ha
+        by_cases hy : y' = y
+        · subst hy
+          rw [hb] at hnd; cases hnd
+          simp only [node_upd, if_true, hb, Option.map_some, Option.some.injEq] at ha
+          subst ha
+          exact Or.inl ⟨k, rfl, hon, rfl⟩
+        · simp only [node_upd, hy, if_false] at ha
+          rw [hb] at ha; cases ha; exact (hne rfl).elim
+    | remoteCmd z c =>
+      rcases C16_remote_command_outcomes n y' z c with ⟨h0, _⟩ | ⟨h0, _⟩ | h0
+      · rw [h0] at contra; exact (contra (F.rel_refl n)).elim
+      · exact (contra (F.rel_shr F.shr (F.rel_refl n) h0)).elim
+      · exact Or.inr h0
+    | localCmd u p c =>
+      have hl : Net.Rel KeepFiles n (localLogin n y' u p).1 := F.toPre.localLogin n y' u p (fun _ _ => rfl)
+      rcases C16_local_command_outcomes n y' u p c with h0 | h0 | ⟨id, h0⟩ | h0
+      · rw [h0] at contra; exact (contra (F.rel_refl n)).elim
+      · rw [h0] at contra; exact (contra hl).elim
+      · rw [h0] at contra; exact (contra (F.rel_upd hl y' _ (fun _ => rfl))).elim
+      · exact Or.inr h0
+    | addUser u p adm => exact (contra (exec_keepFiles _ rfl n y')).elim
+    | disableUser u => exact (contra (exec_keepFiles _ rfl n y')).elim
+    | changePassword u o nw => exact (contra (exec_keepFiles _ rfl n y')).elim
+    | remoteLogin z u p => exact (contra (exec_keepFiles _ rfl n y')).elim
+    | remoteLogoff z => exact (contra (exec_keepFiles _ rfl n y')).elim
+    | usmLogin u p peer => exact (contra (exec_keepFiles _ rfl n y')).elim
+    | usmLogout i => exact (contra (exec_keepFiles _ rfl n y')).elim
+    | svc w v => exact (contra (exec_keepFiles _ rfl n y')).elim
+    | shutdown => exact (contra (exec_keepFiles _ rfl n y')).elim
+    | startup => exact (contra (exec_keepFiles _ rfl n y')).elim
+    | reset => exact (contra (exec_keepFiles _ rfl n y')).elim
 
+/-- The simplest instance spelt out: a file command sent through a remote terminal changes the files of the target `y` only
+if it arrived (sender ON, its terminal RUNNING, path open) on a connection whose id is at that moment a remote session of `y`
+and a connection of `y`'s terminal, `y` ON; exactly the commanded file is added. -/
+theorem C16_remote_file_command (n : Net) (x y k : Nat) (b a : Node)
+    (hb : n.node y = some b) (ha : (step n (.req x (.remoteCmd y (.file k)))).1.node y = some a) (hne : a.files ≠ b.files) :
+    ∃ a' cn, CmdArrives n x y a' b cn ∧ b.hasSession cn.id = true ∧ b.hasConn cn.id = true ∧ b.isOn = true ∧
+      a.files = b.files ++ [k] := by
+  rcases C16_command_runs_only_live n _ y b a hb ha hne with ⟨_, h, _⟩ | h
+  · cases h
+  · cases h with
+    | «local» y' u p c' nd id hop => cases hop
+    | remote x' z c' a' b' cn hop arr hs hc heq =>
+      cases hop
+      have hbb : b' = b := by have := arr.dst; rw [hb] at this; cases this; rfl
+      subst hbb
+      rw [heq] at ha
+      have hb1 : (n.upd y (Node.touch cn.id n.time)).node y = some (b'.touch cn.id n.time) := by simp [hb]
+      rcases C16_command_runs_only_live _ _ y _ a hb1 ha hne with ⟨k', hop, hon, hf⟩ | h2
+      · cases hop
+        exact ⟨a', cn, arr, hs, hc, hon, hf⟩
+      · exact (not_carried_of_atomic rfl h2).elim
 
 /-! ### sessions appear only through a valid login -/
 
@@ -224,45 +284,21 @@ theorem touch_ids (b : Node) (cid t : Nat) : (b.touch cid t).rem.map (·.id) = b
   simp only [Function.comp]
   split <;> rfl
 
-theorem remoteExec_ids (b : Node) (cid t k : Nat) : (b.remoteExec cid t k).rem.map (·.id) = b.rem.map (·.id) := by
-  unfold Node.remoteExec Node.exec
-  split
-  · exact touch_ids b cid t
-  · exact touch_ids b cid t
+theorem remShrink_edits : Edits RemShrink :=
+  ⟨fun j a _ => remShrink_frame.refl j a, fun j a _ _ => remShrink_frame.refl j a, fun j a _ => remShrink_frame.refl j a,
+   fun _ a cid t => by unfold RemShrink; rw [touch_ids]; exact List.Sublist.refl _⟩
 
-theorem localExec_rem (b : Node) (k : Nat) : (b.localExec k).rem = b.rem := by
-  unfold Node.localExec Node.exec
-  split
-  · split <;> rfl
-  · rfl
+/-- every operation without a remote login anywhere inside leaves the set of remote session ids of every node inside the old
+one -/
+theorem step_remShrink (n : Net) (op : Op) (hop : op.noLogin = true) : Net.Rel RemShrink n (step n op).1 :=
+  remShrink_frame.step' remShrink_edits (fun j a _ => remShrink_frame.refl j a) (fun j a _ => remShrink_frame.refl j a)
+    (fun j a _ => remShrink_frame.refl j a) n op (fun h => by rw [hop] at h; cases h) (fun _ j a _ => remShrink_frame.refl j a)
 
-/-- every operation other than a remote login towards `y` leaves the set of remote session ids of `y` inside the old one -/
-theorem step_remShrink (n : Net) (op : Op) (hop : ∀ x y u p, op ≠ .remoteLogin x y u p) :
-    Net.Rel RemShrink n (step n op).1 := by
-  have F := remShrink_frame
-  have r : ∀ j (a : Node), RemShrink j a a := F.refl
-  cases op with
-  | addUser y' u p adm => exact F.toPre.addUser n y' u p adm (fun a _ => r y' a)
-  | disableUser y' u => exact F.toPre.disableUser n y' u (fun a => r y' a)
-  | changePassword y' u o nw => exact F.changePassword n y' u o nw (fun a => r y' a)
-  | localLogin y' u p => simp only [step]; rw [opLocalLogin_fst]; exact F.toPre.localLogin n y' u p (fun a _ => r y' a)
-  | localCmd y' u p k =>
-    exact F.toPre.localCmd n y' u p k (fun a _ => r y' a) (fun a _ => r y' a)
-      (fun a => by unfold RemShrink; rw [localExec_rem]; exact List.Sublist.refl _)
-  | remoteCmd x y' k =>
-    exact F.remoteCmd n x y' k (fun a cid t => by unfold RemShrink; rw [remoteExec_ids]; exact List.Sublist.refl _)
-  | remoteLogin x y' u p => exact absurd rfl (hop x y' u p)
-  | localLogout y' => exact F.quiet n _ trivial
-  | remoteLogoff x y' => exact F.quiet n _ trivial
-  | svc y' w v => exact F.quiet n _ trivial
-  | shutdown y' => exact F.quiet n _ trivial
-  | startup y' => exact F.quiet n _ trivial
-  | reset y' => exact F.quiet n _ trivial
-  | tick => exact F.quiet n _ trivial
-
-theorem isRemoteLogin_or (op : Op) :
-    (∀ x y u p, op ≠ .remoteLogin x y u p) ∨ ∃ x y u p, op = .remoteLogin x y u p := by
-  cases op <;> simp
+theorem no_new_of_remShrink {n m : Net} (h : Net.Rel RemShrink n m) {y : Nat} {b a : Node} (hb : n.node y = some b)
+    (ha : m.node y = some a) {s : RSession} (hs : s ∈ a.rem) (hnew : s.id ∉ b.rem.map (·.id)) : False := by
+  obtain ⟨a', ha', hsub⟩ := h.node y b hb
+  rw [ha] at ha'; cases ha'
+  exact hnew (hsub.subset (List.mem_map_of_mem hs))
 
 theorem addConn_rem (c : Conn) (b : Node) : (b.addConn c).rem = b.rem := rfl
 
@@ -293,35 +329,89 @@ theorem opRemoteLogin_rem (n : Net) (x y' : Nat) (u p : String) (y : Nat) (b a :
       · simp only [Option.some.injEq] at ha; subst ha; simp [h]
 
 /-- **C16, logins (remote), "only if".** If after any operation node `y` holds a remote session whose id it did not hold
-before, then the operation was a remote login towards `y` from a powered-on node `x` over an open path, with the current
-password of an existing, enabled account of `y`, `y` ON with both managers RUNNING, and fewer than `max_remote_sessions`
-sessions open before; the new session is that login's, its id is the fresh one, and nothing else was added. -/
+before, then
+* the operation was a remote login towards `y` from a powered-on node `x` over an open path, with the current password of an
+  existing, enabled account of `y`, `y` ON with both managers RUNNING, and fewer than `max_remote_sessions` sessions open
+  before; the new session is that login's, its id is the fresh one, and nothing else was added; or
+* it was the direct `user-session-manager remote_login` request to `y` under the same conditions on `y`; or
+* it was an accepted terminal command (`Carried`), and the session was created by the carried command, to which this theorem
+  applies again. -/
 theorem C16_remote_session_only_by_valid_login (n : Net) (op : Op) (y : Nat) (b a : Node)
     (hb : n.node y = some b) (ha : (step n op).1.node y = some a) (s : RSession) (hs : s ∈ a.rem)
     (hnew : s.id ∉ b.rem.map (·.id)) :
-    ∃ x u p, op = .remoteLogin x y u p ∧ AuthOK b u p ∧ b.rem.length < b.maxRemote ∧ canDeliver n x y = true ∧
-      (∃ c, n.node x = some c ∧ c.isOn = true) ∧ s = ⟨n.nextId, u, n.time, x⟩ ∧ a.rem = b.rem ++ [s] := by
-  rcases isRemoteLogin_or op with hop | ⟨x, y', u, p, rfl⟩
-  · obtain ⟨a', ha', hsub⟩ := (step_remShrink n op hop).node y b hb
-    rw [ha] at ha'; cases ha'
-    exact (hnew (hsub.subset (List.mem_map_of_mem hs))).elim
-  · simp only [step] at ha
-    rcases opRemoteLogin_cases n x y' u p with ⟨h0, _⟩ | ⟨c, b', hc, hcon, hdel, hb', hok, hlt, h0⟩
-    · rw [h0, hb] at ha; cases ha; exact (hnew (List.mem_map_of_mem hs)).elim
-    · have hrem := opRemoteLogin_rem n x y' u p y b a hb ha h0
-      by_cases h : y' = y
-      · subst h
-        rw [hb] at hb'; cases hb'
-        simp only [if_true] at hrem
-        rw [hrem, List.mem_append, List.mem_singleton] at hs
-        rcases hs with hs | hs
-        · exact (hnew (List.mem_map_of_mem hs)).elim
-        · subst hs
-          exact ⟨x, u, p, rfl, (loginOk_iff _ _ _).mp hok, hlt, hdel, ⟨c, hc, hcon⟩, rfl, hrem⟩
-      · simp only [h, if_false] at hrem
-        rw [hrem] at hs
-        exact (hnew (List.mem_map_of_mem hs)).elim
-
+    (∃ x u p, op = .req x (.remoteLogin y u p) ∧ AuthOK b u p ∧ b.rem.length < b.maxRemote ∧ canDeliver n x y = true ∧
+      (∃ c, n.node x = some c ∧ c.isOn = true) ∧ s = ⟨n.nextId, u, n.time, x⟩ ∧ a.rem = b.rem ++ [s]) ∨
+    (∃ u p peer, op = .req y (.usmLogin u p peer) ∧ AuthOK b u p ∧ b.rem.length < b.maxRemote ∧
+      s = ⟨n.nextId, u, n.time, peer⟩ ∧ a.rem = b.rem ++ [s]) ∨
+    Carried n op := by
+  have quiet : op.noLogin = true → False := fun h => no_new_of_remShrink (step_remShrink n op h) hb ha hs hnew
+  have contra : Net.Rel RemShrink n (step n op).1 → False := fun h => no_new_of_remShrink h hb ha hs hnew
+  have F := remShrink_frame
+  cases op with
+  | enableUser y' u => exact (quiet rfl).elim
+  | localLogin y' u p => exact (quiet rfl).elim
+  | localLogout y' => exact (quiet rfl).elim
+  | tick => exact (quiet rfl).elim
+  | req x c =>
+    cases c with
+    | remoteLogin y' u p =>
+      simp only [step, execCmd] at ha
+      rcases opRemoteLogin_cases n x y' u p with ⟨h0, _⟩ | ⟨c, b', hc, hcon, hdel, hb', hok, hlt, h0⟩
+      · rw [h0, hb] at ha; cases ha; exact (hnew (List.mem_map_of_mem hs)).elim
+      · have hrem := opRemoteLogin_rem n x y' u p y b a hb ha h0
+        by_cases h : y' = y
+        · subst h
+          rw [hb] at hb'; cases hb'
+          simp only [if_true] at hrem
+          rw [hrem, List.mem_append, List.mem_singleton] at hs
+          rcases hs with hs | hs
+          · exact (hnew (List.mem_map_of_mem hs)).elim
+          · subst hs
+            exact Or.inl ⟨x, u, p, rfl, (loginOk_iff _ _ _).mp hok, hlt, hdel, ⟨c, hc, hcon⟩, rfl, hrem⟩
+        · simp only [h, if_false] at hrem
+          rw [hrem] at hs
+          exact (hnew (List.mem_map_of_mem hs)).elim
+    | usmLogin u p peer =>
+      simp only [step, execCmd] at ha
+      rcases opUsmLogin_cases n x u p peer with ⟨h0, _⟩ | ⟨b', hb', _, hok, hlt, h0, _⟩
+      · rw [h0, hb] at ha; cases ha; exact (hnew (List.mem_map_of_mem hs)).elim
+      · rw [h0] at ha
+        simp only [node_bump, node_upd] at ha
+        by_cases h : x = y
+        · subst h
+          rw [hb] at hb'; cases hb'
+          simp only [if_true, hb, Option.map_some, Option.some.injEq] at ha
+          subst ha
+          simp only [Node.addSession, List.mem_append, List.mem_singleton] at hs
+          rcases hs with hs | hs
+          · exact (hnew (List.mem_map_of_mem hs)).elim
+          · subst hs
+            exact Or.inr (Or.inl ⟨u, p, peer, rfl, (loginOk_iff _ _ _).mp hok, hlt, rfl, rfl⟩)
+        · simp only [h, if_false] at ha
+          rw [hb] at ha; cases ha
+          exact (hnew (List.mem_map_of_mem hs)).elim
+    | remoteCmd z c =>
+      rcases C16_remote_command_outcomes n x z c with ⟨h0, _⟩ | ⟨h0, _⟩ | h0
+      · rw [h0] at contra; exact (contra (F.rel_refl n)).elim
+      · exact (contra (F.rel_shr F.shr (F.rel_refl n) h0)).elim
+      · exact Or.inr (Or.inr h0)
+    | localCmd u p c =>
+      have hl : Net.Rel RemShrink n (localLogin n x u p).1 := F.toPre.localLogin n x u p (fun a _ => F.refl x a)
+      rcases C16_local_command_outcomes n x u p c with h0 | h0 | ⟨id, h0⟩ | h0
+      · rw [h0] at contra; exact (contra (F.rel_refl n)).elim
+      · rw [h0] at contra; exact (contra hl).elim
+      · rw [h0] at contra; exact (contra (F.rel_upd hl x _ (fun a => F.refl x a))).elim
+      · exact Or.inr (Or.inr h0)
+    | file k => exact (quiet rfl).elim
+    | addUser u p adm => exact (quiet rfl).elim
+    | disableUser u => exact (quiet rfl).elim
+    | changePassword u o nw => exact (quiet rfl).elim
+    | remoteLogoff z => exact (quiet rfl).elim
+    | usmLogout i => exact (quiet rfl).elim
+    | svc w v => exact (quiet rfl).elim
+    | shutdown => exact (quiet rfl).elim
+    | startup => exact (quiet rfl).elim
+    | reset => exact (quiet rfl).elim
 
 /-! ### ids are fresh: an ended session never becomes valid again -/
 
@@ -336,110 +426,146 @@ theorem localLogin_nextId (n : Net) (y : Nat) (u p : String) : n.nextId ≤ (loc
   · exact Nat.le_refl _
   · simp only [bump_nextId]; split <;> omega
 
+theorem exec_nextId_mono (c : Cmd) (n : Net) (y : Nat) : n.nextId ≤ (execCmd c n y).1.nextId := by
+  refine exec_induction (fun n m => n.nextId ≤ m.nextId) (fun _ => Nat.le_refl _) (fun _ _ _ h1 h2 => Nat.le_trans h1 h2) ?_
+    (fun _ _ h => by rw [h.nextId]; exact Nat.le_refl _) (fun _ _ _ _ => Nat.le_refl _) (fun n y u p => localLogin_nextId n y u p)
+    (fun _ _ _ => Nat.le_refl _) c n y
+  intro c hc n y
+  cases c with
+  | localCmd u p c => cases hc
+  | remoteCmd z c => cases hc
+  | file k => rcases opFile_cases n y k with h | ⟨_, _, _, h⟩ <;> simp [execCmd, h]
+  | addUser u p adm => rcases opAddUser_cases n y u p adm with h | ⟨_, _, _, _, _, h⟩ <;> simp [execCmd, h]
+  | disableUser u => rcases opDisableUser_cases n y u with h | ⟨_, _, _, _, _, _, _, _, h⟩ <;> simp [execCmd, h]
+  | changePassword u o nw =>
+    rcases opChangePassword_cases n y u o nw with ⟨h, _⟩ | ⟨_, _, _, _, _, _, _, h, _⟩ <;> simp only [execCmd, h]
+    · exact Nat.le_refl _
+    · rw [(shr_logoutUser _ _ _).nextId]; exact Nat.le_refl _
+  | remoteLogin z u p =>
+    rcases opRemoteLogin_cases n y z u p with ⟨h, _⟩ | ⟨_, _, _, _, _, _, _, _, ⟨h, _⟩ | ⟨h, _⟩⟩ <;>
+      simp [execCmd, h, afterLogin]
+  | remoteLogoff z =>
+    rcases opRemoteLogoff_cases n y z with h | ⟨_, _, _, _, _, h, _⟩ <;> simp only [execCmd, h]
+    · exact Nat.le_refl _
+    · rw [(shr_disconnect _ _ _ _).nextId]; exact Nat.le_refl _
+  | usmLogin u p peer =>
+    rcases opUsmLogin_cases n y u p peer with ⟨h, _⟩ | ⟨_, _, _, _, _, h, _⟩ <;> simp [execCmd, h]
+  | usmLogout i =>
+    rcases opUsmLogout_cases n y i with ⟨h, _⟩ | ⟨_, _, _, _, _, h⟩ <;> simp only [execCmd, h, upd_nextId]
+    · exact Nat.le_refl _
+    · rw [(shr_disconnect _ _ _ _).nextId]; exact Nat.le_refl _
+  | svc w v => rcases opSvc_cases n y w v with h | ⟨_, _, h⟩ <;> simp [execCmd, h]
+  | shutdown => rcases opShutdown_cases n y with h | ⟨_, _, h⟩ <;> simp [execCmd, h]
+  | startup => rcases opStartup_cases n y with h | ⟨_, _, h⟩ <;> simp [execCmd, h]
+  | reset => rcases opReset_cases n y with h | ⟨_, _, h⟩ <;> simp [execCmd, h]
+
 /-- the id counter never goes back -/
 theorem step_nextId_mono (n : Net) (op : Op) : n.nextId ≤ (step n op).1.nextId := by
   cases op with
-  | addUser y u p adm => rcases opAddUser_cases n y u p adm with h | ⟨_, _, _, _, _, h⟩ <;> simp [step, h]
-  | disableUser y u => rcases opDisableUser_cases n y u with h | ⟨_, _, _, _, _, _, _, _, h⟩ <;> simp [step, h]
-  | changePassword y u o nw =>
-    rcases opChangePassword_cases n y u o nw with ⟨h, _⟩ | ⟨_, _, _, _, _, _, _, h, _⟩ <;> simp only [step, h]
-    · exact Nat.le_refl _
-    · rw [(shr_logoutUser _ _ _).nextId]; exact Nat.le_refl _
+  | req y c => exact exec_nextId_mono c n y
+  | enableUser y u => rcases opEnableUser_cases n y u with h | h <;> simp [step, h]
   | localLogin y u p => simp only [step]; rw [opLocalLogin_fst]; exact localLogin_nextId n y u p
   | localLogout y => rcases opLocalLogout_cases n y with h | h <;> simp [step, h]
-  | localCmd y u p k =>
-    rcases opLocalCmd_cases n y u p k with h | ⟨_, _, _, ⟨_, h⟩ | ⟨_, _, h⟩⟩ <;> simp only [step, h, upd_nextId]
-    · exact Nat.le_refl _
-    · exact localLogin_nextId n y u p
-    · exact localLogin_nextId n y u p
-  | remoteLogin x y u p =>
-    rcases opRemoteLogin_cases n x y u p with ⟨h, _⟩ | ⟨_, _, _, _, _, _, _, _, ⟨h, _⟩ | ⟨h, _⟩⟩ <;>
-      simp [step, h, afterLogin]
-  | remoteCmd x y k =>
-    rcases opRemoteCmd_cases n x y k with ⟨h, _⟩ | ⟨_, _, _, _, ⟨_, _, h⟩ | ⟨_, h, _⟩⟩ <;> simp only [step, h, upd_nextId]
-    · exact Nat.le_refl _
-    · exact Nat.le_refl _
-    · rw [(shr_disconnect _ _ _ _).nextId]; exact Nat.le_refl _
-  | remoteLogoff x y =>
-    rcases opRemoteLogoff_cases n x y with h | ⟨_, _, _, _, _, h, _⟩ <;> simp only [step, h]
-    · exact Nat.le_refl _
-    · rw [(shr_disconnect _ _ _ _).nextId]; exact Nat.le_refl _
-  | svc y w v => rcases opSvc_cases n y w v with h | ⟨_, _, h⟩ <;> simp [step, h]
-  | shutdown y => rcases opShutdown_cases n y with h | ⟨_, _, h⟩ <;> simp [step, h]
-  | startup y => rcases opStartup_cases n y with h | ⟨_, _, h⟩ <;> simp [step, h]
-  | reset y => rcases opReset_cases n y with h | ⟨_, _, h⟩ <;> simp [step, h]
   | tick => simp only [step, tick_nextId]; exact Nat.le_refl _
+
+def TrueRel : Nat → Node → Node → Prop := fun _ _ _ => True
+
+theorem trueRel_frame : Frame TrueRel :=
+  { refl := fun _ _ => trivial, trans := fun _ _ _ _ _ _ => trivial, shr := fun _ _ _ _ => trivial, data := fun _ _ _ _ => trivial }
+
+theorem step_trueRel (n : Net) (op : Op) : Net.Rel TrueRel n (step n op).1 :=
+  trueRel_frame.step' ⟨fun _ _ _ => trivial, fun _ _ _ _ => trivial, fun _ _ _ => trivial, fun _ _ _ _ => trivial⟩
+    (fun _ _ _ => trivial) (fun _ _ _ => trivial) (fun _ _ _ => trivial) n op (fun _ _ _ _ => trivial) (fun _ _ _ _ => trivial)
 
 /-- nodes are never created or destroyed -/
 theorem step_node_some (n : Net) (op : Op) (y : Nat) (b : Node) (hb : n.node y = some b) :
     ∃ a, (step n op).1.node y = some a := by
-  rcases isRemoteLogin_or op with hop | ⟨x, y', u, p, rfl⟩
-  · obtain ⟨a, ha, _⟩ := (step_remShrink n op hop).node y b hb; exact ⟨a, ha⟩
-  · have F : Pre (fun (_ : Nat) (_ _ : Node) => True) := ⟨fun _ _ => trivial, fun _ _ _ _ _ _ => trivial⟩
-    obtain ⟨a, ha, _⟩ := (F.remoteLogin n x y' u p (fun _ _ => trivial) (fun _ _ _ => trivial)).node y b hb
-    exact ⟨a, ha⟩
+  obtain ⟨a, ha, _⟩ := (step_trueRel n op).node y b hb; exact ⟨a, ha⟩
+
+theorem step_node_back (n : Net) (op : Op) (y : Nat) (a : Node) (ha : (step n op).1.node y = some a) :
+    ∃ b, n.node y = some b := by
+  obtain ⟨b, hb, _⟩ := Net.Rel.back_of_len (step_trueRel n op) ha; exact ⟨b, hb⟩
 
 theorem hasSession_iff (b : Node) (cid : Nat) : b.hasSession cid = true ↔ cid ∈ b.rem.map (·.id) := by
   unfold Node.hasSession
   simp only [List.any_eq_true, beq_iff_eq, List.mem_map]
 
-/-- one step: an id below the counter that is not a session of `y` is not a session of `y` afterwards -/
-theorem step_dead_stays_dead (n : Net) (op : Op) (y cid : Nat) (b a : Node) (hlt : cid < n.nextId)
-    (hb : n.node y = some b) (hdead : b.hasSession cid = false) (ha : (step n op).1.node y = some a) :
-    a.hasSession cid = false := by
-  cases h : a.hasSession cid with
+/-- `cid` has been handed out and is not a remote session of node `y` -/
+def Dead (y cid : Nat) (n : Net) : Prop := cid < n.nextId ∧ ∀ b, n.node y = some b → b.hasSession cid = false
+
+theorem dead_of_remShrink {y cid : Nat} {n m : Net} (h : Net.Rel RemShrink n m) (hid : n.nextId ≤ m.nextId) (hd : Dead y cid n) :
+    Dead y cid m := by
+  refine ⟨Nat.lt_of_lt_of_le hd.1 hid, fun a ha => ?_⟩
+  obtain ⟨b, hb, hsub⟩ := Net.Rel.back_of_len h ha
+  cases hs : a.hasSession cid with
   | false => rfl
   | true =>
-    obtain ⟨s, hs, hid⟩ := List.mem_map.mp ((hasSession_iff a cid).mp h)
-    have hnew : s.id ∉ b.rem.map (·.id) := by
-      rw [hid]; intro hm; rw [(hasSession_iff b cid).mpr hm] at hdead; cases hdead
-    obtain ⟨x, u, p, _, _, _, _, _, hs', _⟩ := C16_remote_session_only_by_valid_login n op y b a hb ha s hs hnew
-    rw [hs'] at hid; simp only at hid; omega
+    have := (hasSession_iff b cid).mpr (hsub.subset ((hasSession_iff a cid).mp hs))
+    rw [hd.2 b hb] at this; cases this
+
+/-- one step: an id below the counter that is not a session of `y` is not a session of `y` afterwards (nested commands
+included: induction over the command) -/
+theorem step_dead_stays_dead (n : Net) (op : Op) (y cid : Nat) (hd : Dead y cid n) : Dead y cid (step n op).1 := by
+  have F := remShrink_frame
+  have atomicStep : ∀ (n : Net) (op : Op), (¬ Carried n op) → Dead y cid n → Dead y cid (step n op).1 := by
+    intro n op hnc hd
+    refine ⟨Nat.lt_of_lt_of_le hd.1 (step_nextId_mono n op), fun a ha => ?_⟩
+    obtain ⟨b, hb⟩ := step_node_back n op y a ha
+    cases h : a.hasSession cid with
+    | false => rfl
+    | true =>
+      obtain ⟨s, hs, hid⟩ := List.mem_map.mp ((hasSession_iff a cid).mp h)
+      have hnew : s.id ∉ b.rem.map (·.id) := by
+        rw [hid]; intro hm; have := hd.2 b hb; rw [(hasSession_iff b cid).mpr hm] at this; cases this
+      have hlt := hd.1
+      rcases C16_remote_session_only_by_valid_login n op y b a hb ha s hs hnew with
+        ⟨_, _, _, _, _, _, _, _, hs', _⟩ | ⟨_, _, _, _, _, _, hs', _⟩ | hc
+      · rw [hs'] at hid; simp only at hid; omega
+      · rw [hs'] at hid; simp only at hid; omega
+      · exact (hnc hc).elim
+  cases op with
+  | req y' c =>
+    refine exec_induction (fun n m => Dead y cid n → Dead y cid m) (fun _ h => h) (fun _ _ _ h1 h2 h => h2 (h1 h)) ?_ ?_ ?_ ?_ ?_
+      c n y' hd
+    · intro c hc n y' hd; exact atomicStep n (.req y' c) (not_carried_of_atomic hc) hd
+    · intro n m h hd
+      exact dead_of_remShrink (F.rel_shr F.shr (F.rel_refl n) h) (by rw [h.nextId]; exact Nat.le_refl _) hd
+    · intro n y' c t hd
+      exact dead_of_remShrink (F.rel_upd (F.rel_refl n) y' _ (fun a => remShrink_edits.touch y' a c t)) (Nat.le_refl _) hd
+    · intro n y' u p hd
+      exact dead_of_remShrink (F.toPre.localLogin n y' u p (fun a _ => F.refl y' a)) (localLogin_nextId n y' u p) hd
+    · intro n y' c hd
+      exact dead_of_remShrink (F.rel_upd (F.rel_refl n) y' _ (fun a => F.refl y' a)) (Nat.le_refl _) hd
+  | enableUser y' u => exact dead_of_remShrink (step_remShrink n _ rfl) (step_nextId_mono n _) hd
+  | localLogin y' u p => exact dead_of_remShrink (step_remShrink n _ rfl) (step_nextId_mono n _) hd
+  | localLogout y' => exact dead_of_remShrink (step_remShrink n _ rfl) (step_nextId_mono n _) hd
+  | tick => exact dead_of_remShrink (step_remShrink n _ rfl) (step_nextId_mono n _) hd
 
 /-- **C16, ended stays ended.** Session ids are fresh: once an id that has already been handed out (`cid < nextId`) is
 not (or no longer — after logoff, time-out or password change) a remote session of node `y`, it is never a remote session
-of `y` again, whatever operations follow. -/
-theorem C16_ended_stays_ended (ops : List Op) (n : Net) (y cid : Nat) (b : Node) (hlt : cid < n.nextId)
-    (hb : n.node y = some b) (hdead : b.hasSession cid = false) :
-    ∃ a, (run n ops).node y = some a ∧ a.hasSession cid = false ∧ cid < (run n ops).nextId := by
-  induction ops generalizing n b with
-  | nil => exact ⟨b, hb, hdead, hlt⟩
-  | cons op ops ih =>
-    obtain ⟨a, ha⟩ := step_node_some n op y b hb
-    exact ih (step n op).1 a (Nat.lt_of_lt_of_le hlt (step_nextId_mono n op)) ha
-      (step_dead_stays_dead n op y cid b a hlt hb hdead ha)
+of `y` again, whatever operations (nested commands included) follow. -/
+theorem C16_ended_stays_ended (ops : List Op) (n : Net) (y cid : Nat) (hd : Dead y cid n) : Dead y cid (run n ops) := by
+  induction ops generalizing n with
+  | nil => exact hd
+  | cons op ops ih => exact ih (step n op).1 (step_dead_stays_dead n op y cid hd)
 
-/-- ... and a remote command sent on a connection carrying such an id changes nothing on `y` and is answered `failure`,
-at any later time. -/
-theorem C16_command_on_ended_session_changes_nothing (ops : List Op) (n : Net) (y cid : Nat) (b : Node)
-    (hlt : cid < n.nextId) (hb : n.node y = some b) (hdead : b.hasSession cid = false)
-    (x k : Nat) (a : Node) (c : Conn) (hx : (run n ops).node x = some a)
-    (hc : a.conns.find? (fun c => c.peer == some y) = some c) (hcid : c.id = cid) :
-    ∀ b1 b2, (run n ops).node y = some b1 → (step (run n ops) (.remoteCmd x y k)).1.node y = some b2 →
-      b2.files = b1.files ∧ (step (run n ops) (.remoteCmd x y k)).2 ≠ .success := by
-  intro b1 b2 h1 h2
-  obtain ⟨b1', h1', hd, _⟩ := C16_ended_stays_ended ops n y cid b hlt hb hdead
-  rw [h1] at h1'; cases h1'
-  constructor
-  · cases hf : decide (b2.files = b1.files) with
-    | true => exact of_decide_eq_true hf
-    | false =>
-      have hne : b2.files ≠ b1.files := of_decide_eq_false hf
-      rcases C16_command_runs_only_live _ _ y b1 b2 h1 h2 hne with ⟨x', k', a', c', hop, arr, hs, _⟩ | ⟨_, _, _, hop, _⟩
-      · cases hop
-        have := arr.src; rw [hx] at this; cases this
-        have := arr.conn; rw [hc] at this; cases this
-        rw [hcid, hd] at hs; cases hs
-      · cases hop
-  · simp only [step]
-    rcases opRemoteCmd_cases (run n ops) x y k with ⟨_, h⟩ | ⟨a', b', c', arr, ⟨hs, _, _⟩ | ⟨_, _, h⟩⟩
-    · exact h
-    · have := arr.src; rw [hx] at this; cases this
+/-- ... and a remote command — whatever it carries — sent on a connection carrying such an id is never accepted, at any later
+time: nothing but sessions / connections being torn down happens anywhere, and the answer is not `success`. -/
+theorem C16_command_on_ended_session_changes_nothing (ops : List Op) (n : Net) (y cid : Nat) (hd : Dead y cid n)
+    (x : Nat) (c : Cmd) (a : Node) (cn : Conn) (hx : (run n ops).node x = some a)
+    (hc : a.conns.find? (fun c => c.peer == some y) = some cn) (hcid : cn.id = cid) :
+    (run n ops).Shr (step (run n ops) (.req x (.remoteCmd y c))).1 ∧ (step (run n ops) (.req x (.remoteCmd y c))).2 ≠ .success := by
+  have hdead := C16_ended_stays_ended ops n y cid hd
+  rcases C16_remote_command_outcomes (run n ops) x y c with ⟨h0, h1⟩ | ⟨h0, h1⟩ | h0
+  · rw [h0]; exact ⟨Net.Shr.refl _, h1⟩
+  · exact ⟨h0, by rw [h1]; simp⟩
+  · cases h0 with
+    | «local» y' u p c' nd id hop => cases hop
+    | remote x' z c' a' b' cn' hop arr hs _ _ =>
+      cases hop
+      have := arr.src; rw [hx] at this; cases this
       have := arr.conn; rw [hc] at this; cases this
-      have := arr.dst; rw [h1] at this; cases this
-      rw [hcid, hd] at hs; cases hs
-    · rw [h]; simp
-
+      rw [hcid, hdead.2 b' arr.dst] at hs; cases hs
 
 /-! ### local sessions appear only through a valid local login -/
 
@@ -455,16 +581,6 @@ theorem locShrink_frame : Frame LocShrink :=
         · exact Or.inr (h.trans g)
       · exact Or.inr h,
     shr := fun _ _ _ h => h.loc, data := fun _ _ _ h => Or.inl (data_loc h) }
-
-theorem localExec_loc (a : Node) (k : Nat) : (a.localExec k).loc = a.loc := by
-  unfold Node.localExec Node.exec
-  split
-  · split <;> rfl
-  · rfl
-
-theorem remoteExec_loc (a : Node) (cid t k : Nat) : (a.remoteExec cid t k).loc = a.loc := by
-  unfold Node.remoteExec Node.exec
-  split <;> rfl
 
 theorem localLogin_loc (n : Net) (y' : Nat) (u p : String) (y : Nat) (b b1 : Node) (hb : n.node y = some b)
     (hb1 : (localLogin n y' u p).1.node y = some b1) :
@@ -483,52 +599,84 @@ theorem localLogin_loc (n : Net) (y' : Nat) (u p : String) (y : Nat) (b b1 : Nod
     · simp only [hy, if_false] at hb1
       rw [hb] at hb1; cases hb1; exact Or.inl rfl
 
-/-- **C16, logins (local), "only if".** If after any operation node `y` holds a local session it did not hold before, the
-operation was a local login (`Node.local_login`, or the login inside `send_local_command`) on `y` with the current password of
-an existing, enabled account, `y` ON and both managers RUNNING; the session is that user's and its id is fresh. -/
+theorem locShrink_edits : Edits LocShrink :=
+  ⟨fun _ _ _ => Or.inl rfl, fun _ _ _ _ => Or.inl rfl, fun _ _ _ => Or.inl rfl, fun _ _ _ _ => Or.inl rfl⟩
+
+/-- a request without a local terminal command anywhere inside never opens a local session -/
+theorem exec_locShrink (c : Cmd) (hl : c.noLocal = true) (n : Net) (y : Nat) : Net.Rel LocShrink n (execCmd c n y).1 :=
+  locShrink_frame.exec locShrink_edits (fun n y u => locShrink_frame.toPre.disableUser n y u (fun _ => Or.inl rfl)) c
+    (fun h => by rw [hl] at h; cases h) (fun _ _ _ _ => Or.inl rfl) (fun _ _ _ _ => Or.inl rfl) n y
+
+/-- **C16, logins (local), "only if".** If after any operation node `y` holds a local session it did not hold before, then
+the operation was a local login on `y` (`Node.local_login`, or the login inside `send_local_command`) with the current password
+of an existing, enabled account, `y` ON and both managers RUNNING, the session is that user's and its id is fresh — or the
+operation was an accepted terminal command and the session was opened by the carried command (to which this applies again). -/
 theorem C16_local_session_only_by_valid_login (n : Net) (op : Op) (y : Nat) (b a : Node)
     (hb : n.node y = some b) (ha : (step n op).1.node y = some a) (l : LSession) (hl : a.loc = some l)
     (hnew : b.loc ≠ some l) :
-    ∃ u p, (op = .localLogin y u p ∨ ∃ k, op = .localCmd y u p k) ∧ AuthOK b u p ∧ l = ⟨n.nextId, u, n.time⟩ := by
+    (∃ u p, (op = .localLogin y u p ∨ ∃ c, op = .req y (.localCmd u p c)) ∧ AuthOK b u p ∧ l = ⟨n.nextId, u, n.time⟩) ∨
+    Carried n op := by
   have contra : Net.Rel LocShrink n (step n op).1 → False := fun h => by
     obtain ⟨a', ha', hk⟩ := h.node y b hb
     rw [ha] at ha'; cases ha'
     rcases hk with hk | hk
     · exact hnew (hk ▸ hl)
     · rw [hk] at hl; cases hl
-  by_cases hop : ∃ y', (∃ u p, op = .localLogin y' u p) ∨ ∃ u p k, op = .localCmd y' u p k
-  · obtain ⟨y', ⟨u, p, rfl⟩ | ⟨u, p, k, rfl⟩⟩ := hop
-    · simp only [step] at ha
-      rw [opLocalLogin_fst] at ha
-      rcases localLogin_loc n y' u p y b a hb ha with h | ⟨rfl, hok, h⟩
-      · exact (hnew (h ▸ hl)).elim
-      · rw [hl] at h; cases h
-        exact ⟨u, p, Or.inl rfl, (loginOk_iff _ _ _).mp hok, rfl⟩
-    · simp only [step] at ha contra
-      rcases opLocalCmd_cases n y' u p k with h0 | ⟨nd, hnd, hon, ⟨_, h0⟩ | ⟨id, hid, h0⟩⟩
-      · rw [h0] at contra; exact (contra (locShrink_frame.rel_refl n)).elim
+  have F := locShrink_frame
+  cases op with
+  | enableUser y' u => exact (contra (F.toPre.enableUser n y' u (fun _ => Or.inl rfl))).elim
+  | localLogout y' => exact (contra (F.localLogout n y')).elim
+  | tick => exact (contra (F.tick n)).elim
+  | localLogin y' u p =>
+    simp only [step] at ha
+    rw [opLocalLogin_fst] at ha
+    rcases localLogin_loc n y' u p y b a hb ha with h | ⟨rfl, hok, h⟩
+    · exact (hnew (h ▸ hl)).elim
+    · rw [hl] at h; cases h
+      exact Or.inl ⟨u, p, Or.inl rfl, (loginOk_iff _ _ _).mp hok, rfl⟩
+  | req y' c =>
+    cases c with
+    | localCmd u p c =>
+      -- the state right after the login of the command
+      have login : ∀ a1, (localLogin n y' u p).1.node y = some a1 → a1.loc = some l →
+          ∃ u1 p1, (Op.req y' (.localCmd u p c) = .localLogin y u1 p1 ∨ ∃ c', Op.req y' (.localCmd u p c) = .req y (.localCmd u1 p1 c')) ∧
+            AuthOK b u1 p1 ∧ l = ⟨n.nextId, u1, n.time⟩ := by
+        intro a1 ha1 hl1
+        rcases localLogin_loc n y' u p y b a1 hb ha1 with h | ⟨rfl, hok, h⟩
+        · exact (hnew (h ▸ hl1)).elim
+        · rw [hl1] at h; cases h
+          exact ⟨u, p, Or.inr ⟨c, rfl⟩, (loginOk_iff _ _ _).mp hok, rfl⟩
+      rcases C16_local_command_outcomes n y' u p c with h0 | h0 | ⟨id, h0⟩ | h0
+      · rw [h0] at contra; exact (contra (F.rel_refl n)).elim
+      · rw [h0] at ha; exact Or.inl (login a ha hl)
       · rw [h0] at ha
-        rcases localLogin_loc n y' u p y b a hb ha with h | ⟨rfl, hok, h⟩
-        · exact (hnew (h ▸ hl)).elim
-        · rw [hl] at h; cases h
-          exact ⟨u, p, Or.inr ⟨k, rfl⟩, (loginOk_iff _ _ _).mp hok, rfl⟩
-      · rw [h0] at ha
-        have F : Pre (fun (_ : Nat) (_ _ : Node) => True) := ⟨fun _ _ => trivial, fun _ _ _ _ _ _ => trivial⟩
-        obtain ⟨b1, hb1, _⟩ := (F.localLogin n y' u p (fun _ _ => trivial)).node y b hb
+        obtain ⟨b1, hb1, _⟩ := (trueRel_frame.toPre.localLogin n y' u p (fun _ _ => trivial)).node y b hb
         have hloc : a.loc = b1.loc := by
           simp only [node_upd] at ha
           by_cases hy : y' = y
           · simp only [hy, if_true, hy ▸ hb1, Option.map_some, Option.some.injEq] at ha
-            subst ha; rw [localExec_loc]; rfl
+            subst ha; rfl
           · simp only [hy, if_false] at ha
             rw [hb1] at ha; cases ha; rfl
-        rcases localLogin_loc n y' u p y b b1 hb hb1 with h | ⟨rfl, hok, h⟩
-        · exact (hnew (h ▸ hloc ▸ hl)).elim
-        · rw [← hloc, hl] at h; cases h
-          exact ⟨u, p, Or.inr ⟨k, rfl⟩, (loginOk_iff _ _ _).mp hok, rfl⟩
-  · refine (contra (locShrink_frame.step n op (fun _ _ _ => Or.inl rfl) (fun _ _ _ _ => Or.inl rfl) (fun _ _ _ _ => Or.inl rfl)
-      (fun y' h => (hop ⟨y', h⟩).elim) (fun _ _ _ => Or.inl rfl) (fun _ _ _ => Or.inl rfl)
-      (fun _ a k => Or.inl (localExec_loc a k)) (fun _ a cid t k => Or.inl (remoteExec_loc a cid t k)))).elim
+        exact Or.inl (login b1 hb1 (hloc ▸ hl))
+      · exact Or.inr h0
+    | remoteCmd z c =>
+      rcases C16_remote_command_outcomes n y' z c with ⟨h0, _⟩ | ⟨h0, _⟩ | h0
+      · rw [h0] at contra; exact (contra (F.rel_refl n)).elim
+      · exact (contra (F.rel_shr F.shr (F.rel_refl n) h0)).elim
+      · exact Or.inr h0
+    | file k => exact (contra (exec_locShrink _ rfl n y')).elim
+    | addUser u p adm => exact (contra (exec_locShrink _ rfl n y')).elim
+    | disableUser u => exact (contra (exec_locShrink _ rfl n y')).elim
+    | changePassword u o nw => exact (contra (exec_locShrink _ rfl n y')).elim
+    | remoteLogin z u p => exact (contra (exec_locShrink _ rfl n y')).elim
+    | remoteLogoff z => exact (contra (exec_locShrink _ rfl n y')).elim
+    | usmLogin u p peer => exact (contra (exec_locShrink _ rfl n y')).elim
+    | usmLogout i => exact (contra (exec_locShrink _ rfl n y')).elim
+    | svc w v => exact (contra (exec_locShrink _ rfl n y')).elim
+    | shutdown => exact (contra (exec_locShrink _ rfl n y')).elim
+    | startup => exact (contra (exec_locShrink _ rfl n y')).elim
+    | reset => exact (contra (exec_locShrink _ rfl n y')).elim
 
 /-! ### a login succeeds exactly when it should -/
 
@@ -537,10 +685,10 @@ iff `x` is ON, frames pass in both directions (NICs enabled, both terminals RUNN
 RUNNING, the account exists, is enabled, the password is its current one, and fewer than `max_remote_sessions` sessions are
 open on `y`.  ("Only if" = no login without valid credentials; "if" = every such attempt on an unblocked path succeeds.) -/
 theorem C16_remote_login_ok_iff (n : Net) (x y : Nat) (u p : String) :
-    (step n (.remoteLogin x y u p)).2 = .success ↔
+    (step n (.req x (.remoteLogin y u p))).2 = .success ↔
       ∃ a b, n.node x = some a ∧ n.node y = some b ∧ a.isOn = true ∧ canDeliver n x y = true ∧ canDeliver n y x = true ∧
         AuthOK b u p ∧ b.rem.length < b.maxRemote := by
-  simp only [step]
+  simp only [step, execCmd]
   constructor
   · intro h
     rcases opRemoteLogin_cases n x y u p with ⟨_, h0⟩ | ⟨a, b, ha, hon, hdel, hb, hok, hlt, ⟨_, _, h0⟩ | ⟨_, hback, _⟩⟩
@@ -577,6 +725,21 @@ theorem C16_local_login_ok_iff (n : Net) (y : Nat) (u p : String) :
       · intro h; cases h
       · rintro ⟨b', hb', hauth⟩; cases hb'; rw [(loginOk_iff _ _ _).mpr hauth] at hok; cases hok
 
+/-- **C16, logins (direct request at the session manager), both directions.** -/
+theorem C16_usm_login_ok_iff (n : Net) (y : Nat) (u p : String) (peer : Nat) :
+    (step n (.req y (.usmLogin u p peer))).2 = .success ↔ ∃ b, n.node y = some b ∧ AuthOK b u p ∧ b.rem.length < b.maxRemote := by
+  simp only [step, execCmd]
+  constructor
+  · intro h
+    rcases opUsmLogin_cases n y u p peer with ⟨_, h0⟩ | ⟨b, hb, _, hok, hlt, _, _⟩
+    · exact (h0 h).elim
+    · exact ⟨b, hb, (loginOk_iff _ _ _).mp hok, hlt⟩
+  · rintro ⟨b, hb, hauth, hlt⟩
+    have hok := (loginOk_iff _ _ _).mpr hauth
+    have hon : b.isOn = true := by simp [Node.isOn, hauth.on]
+    unfold opUsmLogin
+    simp [hb, hon, hok, hlt]
+
 /-! ### the session limit -/
 
 /-- session parameters are never changed by any operation -/
@@ -589,41 +752,93 @@ theorem keepParams_frame : Frame KeepParams :=
     shr := fun _ _ _ h => ⟨h.maxRemote, h.localTimeout, h.remoteTimeout⟩,
     data := fun _ _ _ h => ⟨data_maxRemote h, data_localTimeout h, data_remoteTimeout h⟩ }
 
-theorem step_keepParams (n : Net) (op : Op) : Net.Rel KeepParams n (step n op).1 := by
-  refine keepParams_frame.step n op (fun _ _ _ => ⟨rfl, rfl, rfl⟩) (fun _ _ _ _ => ⟨rfl, rfl, rfl⟩) (fun _ _ _ _ => ⟨rfl, rfl, rfl⟩)
-    (fun _ _ _ _ => ⟨rfl, rfl, rfl⟩) (fun _ _ _ => ⟨rfl, rfl, rfl⟩) (fun _ _ _ => ⟨rfl, rfl, rfl⟩) ?_ ?_
-  · intro _ a k; unfold Node.localExec Node.exec
-    split
-    · split <;> exact ⟨rfl, rfl, rfl⟩
-    · exact ⟨rfl, rfl, rfl⟩
-  · intro _ a cid t k; unfold Node.remoteExec Node.exec
-    split <;> exact ⟨rfl, rfl, rfl⟩
+theorem step_keepParams (n : Net) (op : Op) : Net.Rel KeepParams n (step n op).1 :=
+  keepParams_frame.step' ⟨fun _ _ _ => ⟨rfl, rfl, rfl⟩, fun _ _ _ _ => ⟨rfl, rfl, rfl⟩, fun _ _ _ => ⟨rfl, rfl, rfl⟩,
+    fun _ _ _ _ => ⟨rfl, rfl, rfl⟩⟩ (fun _ _ _ => ⟨rfl, rfl, rfl⟩) (fun _ _ _ => ⟨rfl, rfl, rfl⟩) (fun _ _ _ => ⟨rfl, rfl, rfl⟩) n op
+    (fun _ _ _ _ => ⟨rfl, rfl, rfl⟩) (fun _ _ _ _ => ⟨rfl, rfl, rfl⟩)
 
 /-- no node holds more remote sessions than its `max_remote_sessions` -/
 def WithinLimit (n : Net) : Prop := ∀ y b, n.node y = some b → b.rem.length ≤ b.maxRemote
 
-/-- **C16, limit (invariant).** -/
-theorem C16_limit_step (n : Net) (op : Op) (h : WithinLimit n) : WithinLimit (step n op).1 := by
+/-- not more sessions, same maximum -/
+def LimRel : Nat → Node → Node → Prop := fun _ a b => b.rem.length ≤ a.rem.length ∧ b.maxRemote = a.maxRemote
+
+theorem limRel_frame : Frame LimRel :=
+  { refl := fun _ _ => ⟨Nat.le_refl _, rfl⟩, trans := fun _ _ _ _ h1 h2 => ⟨Nat.le_trans h2.1 h1.1, h2.2.trans h1.2⟩,
+    shr := fun _ _ _ h => ⟨h.rem.length_le, h.maxRemote⟩,
+    data := fun _ _ _ h => ⟨by rw [data_rem h]; exact Nat.le_refl _, data_maxRemote h⟩ }
+
+theorem limRel_edits : Edits LimRel :=
+  ⟨fun _ _ _ => ⟨Nat.le_refl _, rfl⟩, fun _ _ _ _ => ⟨Nat.le_refl _, rfl⟩, fun _ _ _ => ⟨Nat.le_refl _, rfl⟩,
+   fun _ a cid t => ⟨by simp [Node.touch], rfl⟩⟩
+
+theorem within_of_limRel {n m : Net} (h : Net.Rel LimRel n m) (hw : WithinLimit n) : WithinLimit m := by
   intro y a ha
-  obtain ⟨b, hb, hab⟩ := Net.Rel.back_of_len (step_keepParams n op) ha
-  have hmax : a.maxRemote = b.maxRemote := hab.1
-  rcases isRemoteLogin_or op with hop | ⟨x, y', u, p, rfl⟩
-  · obtain ⟨a', ha', hsub⟩ := (step_remShrink n op hop).node y b hb
-    rw [ha] at ha'; cases ha'
-    have := hsub.length_le
-    simp only [List.length_map] at this
-    have := h y b hb
-    omega
-  · simp only [step] at ha
-    rcases opRemoteLogin_cases n x y' u p with ⟨h0, _⟩ | ⟨_, b', _, _, _, hb', _, hlt, h0⟩
-    · rw [h0, hb] at ha; cases ha; exact hmax ▸ h y _ hb
-    · have hrem := opRemoteLogin_rem n x y' u p y b a hb ha h0
-      by_cases hy : y' = y
-      · subst hy; rw [hb] at hb'; cases hb'
-        simp only [if_true] at hrem
-        rw [hrem, List.length_append, List.length_singleton]; omega
-      · simp only [hy, if_false] at hrem
-        rw [hrem]; have := h y b hb; omega
+  obtain ⟨b, hb, hab⟩ := Net.Rel.back_of_len h ha
+  have := hw y b hb
+  rw [hab.2]; exact Nat.le_trans hab.1 this
+
+theorem step_limRel (n : Net) (op : Op) (hop : op.noLogin = true) : Net.Rel LimRel n (step n op).1 :=
+  limRel_frame.step' limRel_edits (fun j a _ => limRel_frame.refl j a) (fun j a _ => limRel_frame.refl j a)
+    (fun j a _ => limRel_frame.refl j a) n op (fun h => by rw [hop] at h; cases h) (fun _ j a _ => limRel_frame.refl j a)
+
+/-- **C16, limit (invariant).** Nested commands included. -/
+theorem C16_limit_step (n : Net) (op : Op) (h : WithinLimit n) : WithinLimit (step n op).1 := by
+  have F := limRel_frame
+  cases op with
+  | enableUser y' u => exact within_of_limRel (step_limRel n _ rfl) h
+  | localLogin y' u p => exact within_of_limRel (step_limRel n _ rfl) h
+  | localLogout y' => exact within_of_limRel (step_limRel n _ rfl) h
+  | tick => exact within_of_limRel (step_limRel n _ rfl) h
+  | req y' c =>
+    refine exec_induction (fun n m => WithinLimit n → WithinLimit m) (fun _ h => h) (fun _ _ _ h1 h2 h => h2 (h1 h)) ?_
+      (fun n m hs => within_of_limRel (F.rel_shr F.shr (F.rel_refl n) hs))
+      (fun n y' c t => within_of_limRel (F.rel_upd (F.rel_refl n) y' _ (fun a => limRel_edits.touch y' a c t)))
+      (fun n y' u p => within_of_limRel (F.toPre.localLogin n y' u p (fun a _ => F.refl y' a)))
+      (fun n y' c => within_of_limRel (F.rel_upd (F.rel_refl n) y' _ (fun a => F.refl y' a))) c n y' h
+    intro c hc n x h
+    by_cases hl : c.noLogin = true
+    · exact within_of_limRel (step_limRel n (.req x c) hl) h
+    · intro y a ha
+      obtain ⟨b, hb, hab⟩ := Net.Rel.back_of_len (step_keepParams n (.req x c)) ha
+      have hmax : a.maxRemote = b.maxRemote := hab.1
+      cases c with
+      | remoteLogin y' u p =>
+        simp only [step, execCmd] at ha
+        rcases opRemoteLogin_cases n x y' u p with ⟨h0, _⟩ | ⟨_, b', _, _, _, hb', _, hlt, h0⟩
+        · rw [h0, hb] at ha; cases ha; exact hmax ▸ h y _ hb
+        · have hrem := opRemoteLogin_rem n x y' u p y b a hb ha h0
+          by_cases hy : y' = y
+          · subst hy; rw [hb] at hb'; cases hb'
+            simp only [if_true] at hrem
+            rw [hrem, List.length_append, List.length_singleton]; omega
+          · simp only [hy, if_false] at hrem
+            rw [hrem]; have := h y b hb; omega
+      | usmLogin u p peer =>
+        simp only [step, execCmd] at ha
+        rcases opUsmLogin_cases n x u p peer with ⟨h0, _⟩ | ⟨b', hb', _, _, hlt, h0, _⟩
+        · rw [h0, hb] at ha; cases ha; exact hmax ▸ h y _ hb
+        · rw [h0] at ha
+          simp only [node_bump, node_upd] at ha
+          by_cases hy : x = y
+          · subst hy; rw [hb] at hb'; cases hb'
+            simp only [if_true, hb, Option.map_some, Option.some.injEq] at ha
+            subst ha
+            simp only [Node.addSession, List.length_append, List.length_singleton]; omega
+          · simp only [hy, if_false] at ha
+            rw [hb] at ha; cases ha; exact h y _ hb
+      | localCmd u p c => cases hc
+      | remoteCmd z c => cases hc
+      | file k => exact (hl rfl).elim
+      | addUser u p adm => exact (hl rfl).elim
+      | disableUser u => exact (hl rfl).elim
+      | changePassword u o nw => exact (hl rfl).elim
+      | remoteLogoff z => exact (hl rfl).elim
+      | usmLogout i => exact (hl rfl).elim
+      | svc w v => exact (hl rfl).elim
+      | shutdown => exact (hl rfl).elim
+      | startup => exact (hl rfl).elim
+      | reset => exact (hl rfl).elim
 
 theorem C16_limit_run (ops : List Op) (n : Net) (h : WithinLimit n) : WithinLimit (run n ops) := by
   induction ops generalizing n with
@@ -632,15 +847,22 @@ theorem C16_limit_run (ops : List Op) (n : Net) (h : WithinLimit n) : WithinLimi
 
 /-- **C16, limit (boundary).** With `max_remote_sessions` sessions open on `y`, a further remote login towards `y` is
 refused whatever the credentials, and changes nothing; by `C16_remote_login_ok_iff` it succeeds again as soon as one
-session has ended (`rem.length < maxRemote`). -/
+session has ended (`rem.length < maxRemote`).  The same for the direct request. -/
 theorem C16_limit_boundary (n : Net) (x y : Nat) (u p : String) (b : Node) (hb : n.node y = some b)
     (hfull : b.maxRemote ≤ b.rem.length) :
-    (step n (.remoteLogin x y u p)).2 ≠ .success ∧ (step n (.remoteLogin x y u p)).1 = n := by
-  simp only [step]
-  rcases opRemoteLogin_cases n x y u p with ⟨h0, h1⟩ | ⟨_, b', _, _, _, hb', _, hlt, _⟩
-  · exact ⟨h1, h0⟩
-  · rw [hb] at hb'; cases hb'; omega
-
+    (step n (.req x (.remoteLogin y u p))).2 ≠ .success ∧ (step n (.req x (.remoteLogin y u p))).1 = n ∧
+    (∀ peer, (step n (.req y (.usmLogin u p peer))).2 ≠ .success ∧ (step n (.req y (.usmLogin u p peer))).1 = n) := by
+  simp only [step, execCmd]
+  refine ⟨?_, ?_, fun peer => ?_⟩
+  · rcases opRemoteLogin_cases n x y u p with ⟨_, h1⟩ | ⟨_, b', _, _, _, hb', _, hlt, _⟩
+    · exact h1
+    · rw [hb] at hb'; cases hb'; omega
+  · rcases opRemoteLogin_cases n x y u p with ⟨h0, _⟩ | ⟨_, b', _, _, _, hb', _, hlt, _⟩
+    · exact h0
+    · rw [hb] at hb'; cases hb'; omega
+  · rcases opUsmLogin_cases n y u p peer with ⟨h0, h1⟩ | ⟨b', hb', _, _, hlt, _, _⟩
+    · exact ⟨h1, h0⟩
+    · rw [hb] at hb'; cases hb'; omega
 
 /-! ### the last enabled administrator -/
 
@@ -688,81 +910,87 @@ theorem updUser_password_count (l : List User) (u new : String) :
       rw [this]
     · rw [adminCount_cons, adminCount_cons, ih]
 
-/-- the number of enabled admins does not drop -/
-def AdminMono : Nat → Node → Node → Prop := fun _ a b => adminCount a.users ≤ adminCount b.users
+theorem updUser_enable_count (l : List User) (u : String) :
+    adminCount l ≤ adminCount (updUser l u (fun v => { v with disabled := false })) := by
+  induction l with
+  | nil => exact Nat.le_refl _
+  | cons v t ih =>
+    unfold updUser
+    split
+    · rw [adminCount_cons, adminCount_cons]
+      have : v.enabledAdmin = true → ({ v with disabled := false } : User).enabledAdmin = true := by
+        unfold User.enabledAdmin; simp; intro h _; exact h
+      cases hv : v.enabledAdmin with
+      | false => simp only [Bool.false_eq_true, if_false]; omega
+      | true => rw [this hv]; exact Nat.le_refl _
+    · rw [adminCount_cons, adminCount_cons]; omega
 
-theorem adminMono_frame : Frame AdminMono :=
-  { refl := fun _ _ => Nat.le_refl _, trans := fun _ _ _ _ h1 h2 => Nat.le_trans h1 h2,
-    shr := fun _ _ _ h => by unfold AdminMono; rw [h.users]; exact Nat.le_refl _,
-    data := fun _ _ _ h => by unfold AdminMono; rw [data_users h]; exact Nat.le_refl _ }
+/-- an enabled administrator remains if there was one -/
+def AdminKept : Nat → Node → Node → Prop := fun _ a b => 0 < adminCount a.users → 0 < adminCount b.users
 
-theorem exec_users (a : Node) (k : Nat) : (a.exec k).1.users = a.users := by
-  unfold Node.exec; split <;> rfl
+theorem adminKept_frame : Frame AdminKept :=
+  { refl := fun _ _ h => h, trans := fun _ _ _ _ h1 h2 h => h2 (h1 h),
+    shr := fun _ _ _ h => by unfold AdminKept; rw [h.users]; exact id,
+    data := fun _ _ _ h => by unfold AdminKept; rw [data_users h]; exact id }
+
+theorem adminKept_edits : Edits AdminKept :=
+  ⟨fun _ a w h => by
+      show 0 < adminCount (a.users ++ [w])
+      unfold adminCount at h ⊢; rw [List.filter_append, List.length_append]; omega,
+   fun _ a u p h => by
+      show 0 < adminCount (updUser a.users u _)
+      rw [updUser_password_count]; exact h,
+   fun _ _ _ h => h, fun _ _ _ _ h => h⟩
+
+theorem adminKept_disable (n : Net) (y : Nat) (u : String) : Net.Rel AdminKept n (opDisableUser n y u).1 := by
+  rcases opDisableUser_cases n y u with h0 | ⟨nd, w, hnd, _, _, hw, hdis, hlast, h0⟩ <;> rw [h0]
+  · exact adminKept_frame.rel_refl n
+  · refine rel_upd n y _ adminKept_frame.refl (fun a ha hpos => ?_)
+    rw [hnd] at ha; cases ha
+    have hc := updUser_disable_count nd.users u w hw
+    show 0 < adminCount (updUser nd.users u _)
+    unfold Node.isLastAdmin at hlast
+    by_cases hea : w.enabledAdmin = true
+    · have hadm : w.admin = true := by unfold User.enabledAdmin at hea; simp at hea; exact hea.1
+      simp only [hadm, Bool.true_and, beq_eq_false_iff_ne, ne_eq] at hlast
+      simp only [hea, if_true] at hc
+      unfold adminCount at hc hpos ⊢
+      omega
+    · simp only [hea, if_false, Bool.false_eq_true] at hc
+      omega
 
 /-- every node keeps at least one enabled administrator -/
 def AdminRemains (n : Net) : Prop := ∀ y b, n.node y = some b → 0 < adminCount b.users
 
-/-- **C16, last admin (one step).** -/
+/-- **C16, last admin (one step).** Whatever the operation — `disable_user` sent directly, through a remote terminal command,
+through a local terminal command, nested to any depth; `enable_user`; anything else. -/
 theorem C16_last_admin_step (n : Net) (op : Op) (h : AdminRemains n) : AdminRemains (step n op).1 := by
-  have key : Net.Rel (fun _ a b => 0 < adminCount a.users → 0 < adminCount b.users) n (step n op).1 := by
-    by_cases hop : ∃ y u, op = .disableUser y u
-    · obtain ⟨y, u, rfl⟩ := hop
-      simp only [step]
-      rcases opDisableUser_cases n y u with h0 | ⟨nd, w, hnd, _, _, hw, hdis, hlast, h0⟩ <;> rw [h0]
-      · exact Net.Rel.refl (fun _ _ h => h) n
-      · refine rel_upd n y _ (fun _ _ h => h) (fun a ha hpos => ?_)
-        rw [hnd] at ha; cases ha
-        have hc := updUser_disable_count nd.users u w hw
-        show 0 < adminCount (updUser nd.users u _)
-        unfold Node.isLastAdmin at hlast
-        by_cases hea : w.enabledAdmin = true
-        · have hadm : w.admin = true := by unfold User.enabledAdmin at hea; simp at hea; exact hea.1
-          simp only [hadm, Bool.true_and, beq_eq_false_iff_ne, ne_eq] at hlast
-          simp only [hea, if_true] at hc
-          unfold adminCount at hc hpos ⊢
-          omega
-        · simp only [hea, if_false, Bool.false_eq_true] at hc
-          omega
-    · refine (adminMono_frame.step n op ?_ ?_ ?_ (fun _ _ _ _ => Nat.le_refl _) (fun _ _ _ => Nat.le_refl _)
-        (fun _ _ _ => Nat.le_refl _) ?_ ?_).mono (fun _ a b hab hpos => Nat.lt_of_lt_of_le hpos hab)
-      · intro _ a w
-        show adminCount a.users ≤ adminCount (a.users ++ [w])
-        unfold adminCount; rw [List.filter_append, List.length_append]; omega
-      · intro y u hx; exact (hop ⟨y, u, hx⟩).elim
-      · intro _ a u p
-        show adminCount a.users ≤ adminCount (updUser a.users u _)
-        rw [updUser_password_count]; exact Nat.le_refl _
-      · intro _ a k
-        show adminCount a.users ≤ adminCount (a.localExec k).users
-        unfold Node.localExec; split
-        · rw [exec_users]; exact Nat.le_refl _
-        · exact Nat.le_refl _
-      · intro _ a cid t k
-        show adminCount a.users ≤ adminCount (a.remoteExec cid t k).users
-        unfold Node.remoteExec; rw [exec_users]; exact Nat.le_refl _
+  have key : Net.Rel AdminKept n (step n op).1 :=
+    adminKept_frame.step adminKept_edits adminKept_disable
+      (fun n y u p => adminKept_frame.toPre.localLogin n y u p (fun _ _ h => h))
+      (fun _ a u h => Nat.lt_of_lt_of_le h (updUser_enable_count a.users u)) n op (fun _ _ _ _ h => h) (fun _ _ _ _ h => h)
   intro y a ha
   obtain ⟨b, hb, hab⟩ := Net.Rel.back_of_len key ha
   exact hab (h y b hb)
 
 /-- **C16, last admin.** Over every operation sequence, every node keeps an enabled administrator account
-(`disable_user` on the only enabled admin is refused; nothing else disables or removes accounts). -/
+(`disable_user` on the only enabled admin is refused, however it is sent; nothing else disables or removes accounts). -/
 theorem C16_last_admin (ops : List Op) (n : Net) (h : AdminRemains n) : AdminRemains (run n ops) := by
   induction ops generalizing n with
   | nil => exact h
   | cons op ops ih => exact ih _ (C16_last_admin_step n op h)
 
-/-- the refusal itself: disabling the only enabled admin answers `failure` and changes nothing -/
+/-- the refusal itself: disabling the only enabled admin changes nothing (other administrator accounts may exist, disabled) -/
 theorem C16_last_admin_refused (n : Net) (y : Nat) (u : String) (b : Node) (w : User) (hb : n.node y = some b)
     (hw : b.findUser u = some w) (hadm : w.admin = true) (hone : adminCount b.users = 1) :
-    (step n (.disableUser y u)).1 = n := by
-  simp only [step]
+    (step n (.req y (.disableUser u))).1 = n := by
+  simp only [step, execCmd]
   rcases opDisableUser_cases n y u with h0 | ⟨nd, w', hnd, _, _, hw', _, hlast, _⟩
   · exact h0
   · rw [hb] at hnd; cases hnd; rw [hw] at hw'; cases hw'
     unfold Node.isLastAdmin at hlast
     unfold adminCount at hone
     simp [hadm, hone] at hlast
-
 
 /-! ### a password change ends every session of the user -/
 
@@ -804,10 +1032,10 @@ theorem foldl_forceLogout_noSession (ids : List Nat) (m : Net) (y : Nat) :
 and no local session of `u` — whatever the number of sessions and whatever the state of the session-manager service.
 (On the unrepaired code only the first session ended: DESIGN F-27; and none while the service was stopped.) -/
 theorem C16_password_change_ends_sessions (n : Net) (y : Nat) (u old new : String)
-    (h : (step n (.changePassword y u old new)).2 = .success) (a : Node)
-    (ha : (step n (.changePassword y u old new)).1.node y = some a) :
+    (h : (step n (.req y (.changePassword u old new))).2 = .success) (a : Node)
+    (ha : (step n (.req y (.changePassword u old new))).1.node y = some a) :
     (∀ s ∈ a.rem, s.user ≠ u) ∧ (∀ l, a.loc = some l → l.user ≠ u) := by
-  simp only [step] at h ha
+  simp only [step, execCmd] at h ha
   rcases opChangePassword_cases n y u old new with ⟨_, h0⟩ | ⟨nd, w, hnd, _, _, _, _, h0, _⟩
   · exact (h0 h).elim
   · rw [h0] at ha
@@ -1040,51 +1268,64 @@ theorem C16_timeout_not_earlier (n : Net) (y : Nat) (b : Node) (s : RSession) (h
 
 /-! ### non-vacuity: concrete states meeting the hypotheses, and the repaired behaviours on the witnesses of the findings -/
 
-/-- two default nodes (admin/admin, everything running), short time-outs -/
-def demoNet : Net := { nodes := [{ remoteTimeout := 2, maxRemote := 2 }, { remoteTimeout := 2, maxRemote := 2 }] }
+/-- three default nodes (admin/admin, everything running), short time-outs -/
+def demoNet : Net :=
+  { nodes := [{ remoteTimeout := 2, maxRemote := 2 }, { remoteTimeout := 2, maxRemote := 2 }, { remoteTimeout := 2, maxRemote := 2 }] }
 
-def login01 : Op := .remoteLogin 0 1 "admin" "admin"
+def login01 : Op := .req 0 (.remoteLogin 1 "admin" "admin")
+def cmd01 (c : Cmd) : Op := .req 0 (.remoteCmd 1 c)
+def chpw1 : Op := .req 1 (.changePassword "admin" "admin" "pw1")
 
 -- a valid login succeeds, a wrong password does not (C16_remote_login_ok_iff is not vacuous in either direction)
 example : (step demoNet login01).2 = .success := by decide
-example : (step demoNet (.remoteLogin 0 1 "admin" "nope")).2 = .failure := by decide
+example : (step demoNet (.req 0 (.remoteLogin 1 "admin" "nope"))).2 = .failure := by decide
 -- hypotheses of C16_command_runs_only_live: a command over the live session changes the target's files
-example : ((run demoNet [login01, .remoteCmd 0 1 7]).node 1).map (·.files) = some [7] := by decide
+example : ((run demoNet [login01, cmd01 (.file 7)]).node 1).map (·.files) = some [7] := by decide
+-- nested: 0 makes 1 log in to 2, then sends a file command through 1 to 2 (two accepted hops: `Carried` twice)
+example : ((run demoNet [login01, cmd01 (.remoteLogin 2 "admin" "admin"), cmd01 (.remoteCmd 2 (.file 9))]).node 2).map (·.files)
+    = some [9] := by decide
+-- ... and without the second session nothing happens on 2
+example : ((run demoNet [login01, cmd01 (.remoteCmd 2 (.file 9))]).node 2).map (·.files) = some [] := by decide
 -- the initial state satisfies the invariants' hypotheses
 example : WithinLimit demoNet := by
   intro y b hb
   match y, hb with
   | 0, hb => cases hb; decide
   | 1, hb => cases hb; decide
+  | 2, hb => cases hb; decide
 example : AdminRemains demoNet := by
   intro y b hb
   match y, hb with
   | 0, hb => cases hb; decide
   | 1, hb => cases hb; decide
+  | 2, hb => cases hb; decide
 -- F-27 witness on the model of the repaired code: two sessions, password change, no session left, commands refused
-example : ((run demoNet [login01, login01, .changePassword 1 "admin" "admin" "pw1"]).node 1).map (·.rem) = some [] := by decide
-example : (step (run demoNet [login01, login01, .changePassword 1 "admin" "admin" "pw1"]) (.remoteCmd 0 1 9)).2 = .failure := by
-  decide
+example : ((run demoNet [login01, login01, chpw1]).node 1).map (·.rem) = some [] := by decide
+example : (step (run demoNet [login01, login01, chpw1]) (cmd01 (.file 9))).2 = .failure := by decide
 -- ... also while the session manager of the target is stopped
-example : ((run demoNet [login01, .svc 1 .sessionManager .stop, .changePassword 1 "admin" "admin" "pw1"]).node 1).map (·.rem)
-    = some [] := by decide
+example : ((run demoNet [login01, .req 1 (.svc .sessionManager .stop), chpw1]).node 1).map (·.rem) = some [] := by decide
 -- hypotheses of C16_ended_stays_ended: after logoff, id 0 has been handed out and is not a session of node 1
-example : (run demoNet [login01, .remoteLogoff 0 1]).nextId = 1 ∧
-    ((run demoNet [login01, .remoteLogoff 0 1]).node 1).map (·.hasSession 0) = some false := by decide
--- limit boundary: third login refused at maxRemote = 2, accepted again after a logoff
+example : (run demoNet [login01, .req 0 (.remoteLogoff 1)]).nextId = 1 ∧
+    ((run demoNet [login01, .req 0 (.remoteLogoff 1)]).node 1).map (·.hasSession 0) = some false := by decide
+-- limit boundary: third login refused at maxRemote = 2, accepted again after a logoff; the direct request counts too
 example : (step (run demoNet [login01, login01]) login01).2 = .failure := by decide
-example : (step (run demoNet [login01, login01, .remoteLogoff 0 1]) login01).2 = .success := by decide
+example : (step (run demoNet [login01, login01, .req 0 (.remoteLogoff 1)]) login01).2 = .success := by decide
+example : (step (run demoNet [login01, .req 1 (.usmLogin "admin" "admin" 2)]) login01).2 = .failure := by decide
+example : (step (run demoNet [login01, .req 1 (.usmLogin "admin" "admin" 2), .req 1 (.usmLogout 1)]) login01).2 = .success := by decide
 -- time-out: alive after 1 tick, gone after 2 (remoteTimeout = 2)
 example : ((run demoNet [login01, .tick]).node 1).map (·.rem.length) = some 1 := by decide
 example : ((run demoNet [login01, .tick, .tick]).node 1).map (·.rem.length) = some 0 := by decide
 -- F-2 witness: target shut down, the command is answered `failure`, not the earlier success
-example : (step (run demoNet [login01, .remoteCmd 0 1 1, .shutdown 1]) (.remoteCmd 0 1 2)).2 = .failure := by decide
--- last admin: disabling the only enabled admin is refused
-example : (step demoNet (.disableUser 1 "admin")).2 = .failure := by decide
+example : (step (run demoNet [login01, cmd01 (.file 1), .req 1 .shutdown]) (cmd01 (.file 2))).2 = .failure := by decide
+-- last admin: disabling the only enabled admin is refused — also when a second, disabled administrator exists, and also when
+-- the request comes through a remote terminal command (the situation of seeded change C16-b)
+example : (step demoNet (.req 1 (.disableUser "admin"))).2 = .failure := by decide
+example : (step (run demoNet [.req 1 (.addUser "adm2" "pw2" true), .req 1 (.disableUser "adm2")]) (.req 1 (.disableUser "admin"))).2
+    = .failure := by decide
+example : ((run demoNet [.req 1 (.addUser "adm2" "pw2" true), .req 1 (.disableUser "adm2"), login01,
+    cmd01 (.disableUser "admin")]).node 1).map (fun nd => nd.users.map (·.disabled)) = some [false, true] := by decide
 -- the fuel bound was enough on all of these
-example : (run demoNet [login01, login01, .changePassword 1 "admin" "admin" "pw1", .remoteLogoff 0 1, .tick, .tick]).stuck = false := by
-  decide
-
+example : (run demoNet [login01, login01, chpw1, .req 0 (.remoteLogoff 1), .tick, .tick]).stuck = false := by decide
 
 /-! ### session ids are unique and below the counter (reachable-state invariant) -/
 
@@ -1092,42 +1333,91 @@ example : (run demoNet [login01, login01, .changePassword 1 "admin" "admin" "pw1
 def FreshIds (n : Net) : Prop :=
   ∀ y b, n.node y = some b → (∀ s ∈ b.rem, s.id < n.nextId) ∧ (b.rem.map (·.id)).Nodup
 
-theorem C16_fresh_ids_step (n : Net) (op : Op) (h : FreshIds n) : FreshIds (step n op).1 := by
+theorem fresh_of_remShrink {n m : Net} (h : Net.Rel RemShrink n m) (hid : n.nextId ≤ m.nextId) (hf : FreshIds n) : FreshIds m := by
   intro y a ha
-  have hmono := step_nextId_mono n op
-  rcases isRemoteLogin_or op with hop | ⟨x, y', u, p, rfl⟩
-  · obtain ⟨b, hb, hsub⟩ := Net.Rel.back_of_len (step_remShrink n op hop) ha
-    obtain ⟨hlt, hnd⟩ := h y b hb
-    refine ⟨fun s hs => ?_, hsub.nodup hnd⟩
-    obtain ⟨s', hs', hid⟩ := List.mem_map.mp (hsub.subset (List.mem_map_of_mem hs))
+  obtain ⟨b, hb, hsub⟩ := Net.Rel.back_of_len h ha
+  obtain ⟨hlt, hnd⟩ := hf y b hb
+  refine ⟨fun s hs => ?_, hsub.nodup hnd⟩
+  obtain ⟨s', hs', hid'⟩ := List.mem_map.mp (hsub.subset (List.mem_map_of_mem hs))
+  have := hlt s' hs'
+  omega
+
+theorem fresh_append {n : Net} {b : Node} {s : RSession} (hlt : ∀ s ∈ b.rem, s.id < n.nextId) (hnd : (b.rem.map (·.id)).Nodup)
+    (hs : s.id = n.nextId) :
+    (∀ t ∈ b.rem ++ [s], t.id < n.nextId + 1) ∧ ((b.rem ++ [s]).map (·.id)).Nodup := by
+  refine ⟨fun t ht => ?_, ?_⟩
+  · rcases List.mem_append.mp ht with ht | ht
+    · have := hlt t ht; omega
+    · simp only [List.mem_singleton] at ht; subst ht; omega
+  · rw [List.map_append, List.nodup_append]
+    refine ⟨hnd, by simp, ?_⟩
+    intro i hi j hj
+    simp only [List.map_cons, List.map_nil, List.mem_singleton] at hj
+    obtain ⟨s', hs', hid⟩ := List.mem_map.mp hi
     have := hlt s' hs'
     omega
-  · simp only [step] at ha hmono ⊢
-    rcases opRemoteLogin_cases n x y' u p with ⟨h0, _⟩ | ⟨_, b', _, _, _, hb', _, _, h0⟩
-    · rw [h0] at ha ⊢; exact h y a ha
-    · have F : Pre (fun (_ : Nat) (_ _ : Node) => True) := ⟨fun _ _ => trivial, fun _ _ _ _ _ _ => trivial⟩
-      obtain ⟨b, hb, _⟩ := Net.Rel.back_of_len (F.remoteLogin n x y' u p (fun _ _ => trivial) (fun _ _ _ => trivial)) ha
-      obtain ⟨hlt, hnd⟩ := h y b hb
-      have hrem := opRemoteLogin_rem n x y' u p y b a hb ha h0
-      have hnext : (opRemoteLogin n x y' u p).1.nextId = n.nextId + 1 := by
-        rcases h0 with ⟨h0, _⟩ | ⟨h0, _⟩ <;> rw [h0] <;> simp [afterLogin]
-      by_cases hy : y' = y
-      · simp only [hy, if_true] at hrem
-        rw [hrem, hnext]
-        refine ⟨fun s hs => ?_, ?_⟩
-        · rcases List.mem_append.mp hs with hs | hs
-          · have := hlt s hs; omega
-          · simp only [List.mem_singleton] at hs; subst hs; simp
-        · rw [List.map_append, List.nodup_append]
-          refine ⟨hnd, by simp, ?_⟩
-          intro i hi j hj
-          simp only [List.map_cons, List.map_nil, List.mem_singleton] at hj
-          obtain ⟨s', hs', hid⟩ := List.mem_map.mp hi
-          have := hlt s' hs'
-          omega
-      · simp only [hy, if_false] at hrem
-        rw [hrem, hnext]
-        exact ⟨fun s hs => by have := hlt s hs; omega, hnd⟩
+
+theorem C16_fresh_ids_step (n : Net) (op : Op) (h : FreshIds n) : FreshIds (step n op).1 := by
+  have F := remShrink_frame
+  cases op with
+  | enableUser y' u => exact fresh_of_remShrink (step_remShrink n _ rfl) (step_nextId_mono n _) h
+  | localLogin y' u p => exact fresh_of_remShrink (step_remShrink n _ rfl) (step_nextId_mono n _) h
+  | localLogout y' => exact fresh_of_remShrink (step_remShrink n _ rfl) (step_nextId_mono n _) h
+  | tick => exact fresh_of_remShrink (step_remShrink n _ rfl) (step_nextId_mono n _) h
+  | req y' c =>
+    refine exec_induction (fun n m => FreshIds n → FreshIds m) (fun _ h => h) (fun _ _ _ h1 h2 h => h2 (h1 h)) ?_
+      (fun n m hs => fresh_of_remShrink (F.rel_shr F.shr (F.rel_refl n) hs) (by rw [hs.nextId]; exact Nat.le_refl _))
+      (fun n y' c t => fresh_of_remShrink (F.rel_upd (F.rel_refl n) y' _ (fun a => remShrink_edits.touch y' a c t)) (Nat.le_refl _))
+      (fun n y' u p => fresh_of_remShrink (F.toPre.localLogin n y' u p (fun a _ => F.refl y' a)) (localLogin_nextId n y' u p))
+      (fun n y' c => fresh_of_remShrink (F.rel_upd (F.rel_refl n) y' _ (fun a => F.refl y' a)) (Nat.le_refl _)) c n y' h
+    intro c hc n x h
+    by_cases hl : c.noLogin = true
+    · exact fresh_of_remShrink (step_remShrink n (.req x c) hl) (step_nextId_mono n (.req x c)) h
+    · intro y a ha
+      cases c with
+      | remoteLogin y' u p =>
+        rcases opRemoteLogin_cases n x y' u p with ⟨h0, _⟩ | ⟨_, b', _, _, _, hb', _, _, h0⟩
+        · simp only [execCmd] at ha ⊢; rw [h0] at ha ⊢; exact h y a ha
+        · obtain ⟨b, hb⟩ := step_node_back n (.req x (.remoteLogin y' u p)) y a ha
+          obtain ⟨hlt, hnd⟩ := h y b hb
+          simp only [execCmd] at ha ⊢
+          have hrem := opRemoteLogin_rem n x y' u p y b a hb ha h0
+          have hnext : (opRemoteLogin n x y' u p).1.nextId = n.nextId + 1 := by
+            rcases h0 with ⟨h0, _⟩ | ⟨h0, _⟩ <;> rw [h0] <;> simp [afterLogin]
+          by_cases hy : y' = y
+          · simp only [hy, if_true] at hrem
+            rw [hrem, hnext]
+            exact fresh_append hlt hnd rfl
+          · simp only [hy, if_false] at hrem
+            rw [hrem, hnext]
+            exact ⟨fun s hs => by have := hlt s hs; omega, hnd⟩
+      | usmLogin u p peer =>
+        simp only [execCmd] at ha ⊢
+        rcases opUsmLogin_cases n x u p peer with ⟨h0, _⟩ | ⟨b', hb', _, _, _, h0, _⟩
+        · rw [h0] at ha ⊢; exact h y a ha
+        · rw [h0] at ha ⊢
+          simp only [node_bump, node_upd, bump_nextId] at ha ⊢
+          by_cases hy : x = y
+          · subst hy
+            simp only [if_true, hb', Option.map_some, Option.some.injEq] at ha
+            subst ha
+            obtain ⟨hlt, hnd⟩ := h x b' hb'
+            exact fresh_append hlt hnd rfl
+          · simp only [hy, if_false] at ha
+            obtain ⟨hlt, hnd⟩ := h y a ha
+            exact ⟨fun s hs => by have := hlt s hs; omega, hnd⟩
+      | localCmd u p c => cases hc
+      | remoteCmd z c => cases hc
+      | file k => exact (hl rfl).elim
+      | addUser u p adm => exact (hl rfl).elim
+      | disableUser u => exact (hl rfl).elim
+      | changePassword u o nw => exact (hl rfl).elim
+      | remoteLogoff z => exact (hl rfl).elim
+      | usmLogout i => exact (hl rfl).elim
+      | svc w v => exact (hl rfl).elim
+      | shutdown => exact (hl rfl).elim
+      | startup => exact (hl rfl).elim
+      | reset => exact (hl rfl).elim
 
 theorem C16_fresh_ids_run (ops : List Op) (n : Net) (h : FreshIds n) : FreshIds (run n ops) := by
   induction ops generalizing n with
@@ -1170,5 +1460,61 @@ example : FreshIds demoNet := by
   match y, hb with
   | 0, hb => cases hb; exact ⟨fun s hs => (by simp at hs), (by decide)⟩
   | 1, hb => cases hb; exact ⟨fun s hs => (by simp at hs), (by decide)⟩
+  | 2, hb => cases hb; exact ⟨fun s hs => (by simp at hs), (by decide)⟩
+
+/-! ### the fuel of the disconnect recursion always suffices -/
+
+/-- **C16, fuel (the recursion itself).** `Terminal._disconnect` and the "disconnect" messages it triggers form a recursion
+through the terminals and session managers of several nodes.  The model runs it with fuel `3·(number of terminal connections in
+the network) + 4`; in EVERY state (reachable or not) that is enough: the run ends without exhausting the fuel, and never adds a
+connection.  (Every `_disconnect` that goes on has first removed a connection.) -/
+theorem C16_fuel_disconnect (n : Net) (i cid : Nat) :
+    (disconnect n.fuel n i cid).stuck = n.stuck ∧ (disconnect n.fuel n i cid).totalConns ≤ n.totalConns :=
+  chain_ok n.fuel .disconnect n i cid (by simp only [need, Net.fuel]; omega)
+
+theorem exec_not_stuck (c : Cmd) (n : Net) (y : Nat) : (execCmd c n y).1.stuck = n.stuck := by
+  refine exec_induction' (fun n m => m.stuck = n.stuck) (fun _ => rfl) (fun _ _ _ h1 h2 => h2.trans h1) ?_
+    (fun n y cid => disconnect_not_stuck n y cid) (fun _ _ _ _ => rfl) (fun n y u p => localLogin_not_stuck n y u p)
+    (fun _ _ _ => rfl) c n y
+  intro c hc n y
+  cases c with
+  | localCmd u p c => cases hc
+  | remoteCmd z c => cases hc
+  | file k => rcases opFile_cases n y k with h | ⟨_, _, _, h⟩ <;> simp [execCmd, h]
+  | addUser u p adm => rcases opAddUser_cases n y u p adm with h | ⟨_, _, _, _, _, h⟩ <;> simp [execCmd, h]
+  | disableUser u => rcases opDisableUser_cases n y u with h | ⟨_, _, _, _, _, _, _, _, h⟩ <;> simp [execCmd, h]
+  | changePassword u o nw =>
+    rcases opChangePassword_cases n y u o nw with ⟨h, _⟩ | ⟨_, _, _, _, _, _, _, h, _⟩ <;> simp only [execCmd, h]
+    rw [logoutUser_not_stuck]; rfl
+  | remoteLogin z u p =>
+    rcases opRemoteLogin_cases n y z u p with ⟨h, _⟩ | ⟨_, _, _, _, _, _, _, _, ⟨h, _⟩ | ⟨h, _⟩⟩ <;>
+      simp [execCmd, h, afterLogin]
+  | remoteLogoff z =>
+    rcases opRemoteLogoff_cases n y z with h | ⟨_, _, _, _, _, h, _⟩ <;> simp only [execCmd, h]
+    exact disconnect_not_stuck _ _ _
+  | usmLogin u p peer =>
+    rcases opUsmLogin_cases n y u p peer with ⟨h, _⟩ | ⟨_, _, _, _, _, h, _⟩ <;> simp [execCmd, h]
+  | usmLogout i =>
+    rcases opUsmLogout_cases n y i with ⟨h, _⟩ | ⟨_, _, _, _, _, h⟩ <;> simp only [execCmd, h, upd_stuck]
+    exact disconnect_not_stuck _ _ _
+  | svc w v => rcases opSvc_cases n y w v with h | ⟨_, _, h⟩ <;> simp [execCmd, h]
+  | shutdown => rcases opShutdown_cases n y with h | ⟨_, _, h⟩ <;> simp [execCmd, h]
+  | startup => rcases opStartup_cases n y with h | ⟨_, _, h⟩ <;> simp [execCmd, h]
+  | reset => rcases opReset_cases n y with h | ⟨_, _, h⟩ <;> simp [execCmd, h]
+
+/-- **C16, fuel (every operation).** No operation — password change with its forced logouts, logoff, rejected command, direct
+logout, nested commands — ever exhausts the fuel: the `stuck` flag of the model is never set, from any state. -/
+theorem C16_fuel_suffices (n : Net) (op : Op) : (step n op).1.stuck = n.stuck := by
+  cases op with
+  | req y c => exact exec_not_stuck c n y
+  | enableUser y u => rcases opEnableUser_cases n y u with h | h <;> simp [step, h]
+  | localLogin y u p => simp only [step]; rw [opLocalLogin_fst]; exact localLogin_not_stuck n y u p
+  | localLogout y => rcases opLocalLogout_cases n y with h | h <;> simp [step, h]
+  | tick => exact tick_not_stuck n
+
+theorem C16_fuel_suffices_run (ops : List Op) (n : Net) : (run n ops).stuck = n.stuck := by
+  induction ops generalizing n with
+  | nil => rfl
+  | cons op ops ih => exact (ih _).trans (C16_fuel_suffices n op)
 
 end Primaite.Session
